@@ -366,11 +366,11 @@ Qed.
 (* ------------------------------------------------------------------ what the operations do, as equations *)
 
 Ltac proj_in H :=
-  cbn [par rt kid pend q dirty cache regd unregd disp
-       set_par set_rt set_kid set_pend set_q set_dirty set_cache set_regd set_unregd set_disp enq] in H.
+  cbn [par rt kid pend q dirty cache regd unregd disp fx
+       set_par set_rt set_kid set_pend set_q set_dirty set_cache set_regd set_unregd set_disp set_fx enq] in H.
 Ltac proj :=
-  cbn [par rt kid pend q dirty cache regd unregd disp
-       set_par set_rt set_kid set_pend set_q set_dirty set_cache set_regd set_unregd set_disp enq].
+  cbn [par rt kid pend q dirty cache regd unregd disp fx
+       set_par set_rt set_kid set_pend set_q set_dirty set_cache set_regd set_unregd set_disp set_fx enq].
 
 Lemma complete_ok : forall n c s s', complete n c s = Ok s' ->
   pend s c = true /\
@@ -379,7 +379,7 @@ Lemma complete_ok : forall n c s s', complete n c s = Ok s' ->
      s' = mkst (upd (par s) c c) f (upd2 (kid s) (par s c) c false) (upd (pend s) c false)
                (upd (q s) (rt s c) (q s (rt s c) ++ [Unregistered c (par s c)]))
                (upd (upd (dirty s) (rt s (par s c)) true) c true) (cache s) (regd s)
-               ((c, par s c) :: unregd s) (disp s)).
+               ((c, par s c) :: unregd s) (disp s) (fx s)).
 Proof.
   intros n c s s' H. unfold complete in H.
   destruct (pend s c) eqn:Hp; [|discriminate]. split; [reflexivity|]. intro Hatt.
@@ -397,7 +397,7 @@ Lemma register_ok : forall n c p s s', register n c p s = Ok s' ->
     s' = mkst (upd (par s) c p) f (upd2 (kid s) p c true) (pend s)
               (upd (upd (upd (q s) (rt s p) (q s (rt s p) ++ q s c)) c []) (f c)
                    (upd (upd (q s) (rt s p) (q s (rt s p) ++ q s c)) c [] (f c) ++ [Registered c p]))
-              (upd (dirty s) (rt s p) true) (cache s) ((c, p) :: regd s) (unregd s) (disp s).
+              (upd (dirty s) (rt s p) true) (cache s) ((c, p) :: regd s) (unregd s) (disp s) (fx s).
 Proof.
   intros n c p s s' H. unfold register in H.
   destruct (c <? n) eqn:H1; [|discriminate]. destruct (p <? n) eqn:H2; [|discriminate].
@@ -499,61 +499,6 @@ Proof.
     (rewrite upd2_other in Hab by tauto); eapply (i_kidlt _ _ _ _ _ _ _ _ I); exact Hab.
 Qed.
 
-Lemma dispatch_inv : forall n r e s s', Inv n s -> par s r = r -> dispatch n r e s = Ok s' ->
-  Inv n s' /\ par s' r = r.
-Proof.
-  intros n r e s s' I Hr H. unfold dispatch in H.
-  destruct (lookup n r e s) as [s1 ms] eqn:Hl.
-  destruct (lookup_inv _ _ _ _ _ _ I Hr Hl) as [I1 [Hms T]].
-  assert (Hr1 : par s1 r = r) by (destruct T as [-> _]; exact Hr).
-  set (s2 := set_disp s1 (mkd r e ms (forallb (fun x => rt s1 x =? r) ms) :: disp s1)) in *.
-  assert (I2 : Inv n s2).
-  { unfold s2, Inv; proj. apply invF_disp; [exact I1|]. cbn [d_ok].
-    apply forallb_forall. intros x Hx. apply Nat.eqb_eq. apply Hms. exact Hx. }
-  assert (Hr2 : par s2 r = r) by exact Hr1.
-  clearbody s2.
-  destruct e; cbv beta iota in H.
-  - inversion H; subst s'. split; assumption.
-  - inversion H; subst s'. split; assumption.
-  - inversion H; subst s'. split; assumption.
-  - inversion H; subst s'. split; [exact I2 | exact Hr2].
-  - destruct (existsb (Nat.eqb c) ms).
-    + destruct (complete_inv _ _ _ _ I2 H) as [I3 Hroots]. split; [exact I3 | apply Hroots; exact Hr2].
-    + inversion H; subst s'. split; assumption.
-  - inversion H; subst s'. split; assumption.
-Qed.
-
-Lemma dispatch_all_inv : forall n r sched s s', Inv n s -> par s r = r -> dispatch_all n r sched s = Ok s' ->
-  Inv n s' /\ par s' r = r.
-Proof.
-  intros n r. induction sched as [|e t IH]; intros s s' I Hr H; simpl in H.
-  - inversion H; subst. split; assumption.
-  - destruct (dispatch n r e s) as [s1| | | |] eqn:Hd; try discriminate.
-    destruct (dispatch_inv _ _ _ _ _ I Hr Hd) as [I1 Hr1]. eapply IH; eassumption.
-Qed.
-
-Lemma flush_inv : forall n r sched s s', Inv n s -> par s r = r -> flush n r sched s = Ok s' -> Inv n s'.
-Proof.
-  intros n r sched s s' I Hr H. unfold flush in H.
-  destruct (is_perm sched (q s r)); [|discriminate].
-  eapply dispatch_all_inv; [| |exact H]; [exact I | exact Hr].
-Qed.
-
-Lemma tick1_inv : forall n r sched s s', Inv n s -> tick1 n r sched s = Ok s' -> Inv n s'.
-Proof.
-  intros n r sched s s' I H. unfold tick1 in H. destruct (q s r).
-  - destruct sched; [inversion H; subst; exact I | discriminate].
-  - eapply flush_inv; [exact I | | exact H]. apply (i_rtroot _ _ _ _ _ _ _ _ I).
-Qed.
-
-Lemma ticks_inv : forall n r scheds s s', Inv n s -> ticks n r scheds s = Ok s' -> Inv n s'.
-Proof.
-  intros n r. induction scheds as [|sc t IH]; intros s s' I H; simpl in H.
-  - inversion H; subst; exact I.
-  - destruct (tick1 n r sc s) as [s1| | | |] eqn:Ht; try discriminate.
-    eapply IH; [|exact H]. eapply tick1_inv; eassumption.
-Qed.
-
 Lemma unregister_inv : forall n c s s', Inv n s -> unregister n c s = Ok s' -> Inv n s'.
 Proof.
   intros n c s s' I H. unfold unregister in H.
@@ -569,24 +514,7 @@ Proof.
     + rewrite upd_other in Hd by exact N. eapply Hca; eassumption.
 Qed.
 
-Lemma step_inv : forall n o s s', Inv n s -> step n o s = Ok s' -> Inv n s'.
-Proof.
-  intros n o s s' I H. destruct o as [c p|c|x i|r scheds|x sched]; simpl in H.
-  - eapply register_inv; eassumption.
-  - eapply unregister_inv; eassumption.
-  - destruct (x <? n); [|discriminate]. inversion H; subst. exact I.
-  - destruct ((r <? n) && (par s r =? r)); [|discriminate]. eapply ticks_inv; eassumption.
-  - destruct (x <? n); [|discriminate]. eapply flush_inv; [exact I | | exact H].
-    apply (i_rtroot _ _ _ _ _ _ _ _ I).
-Qed.
 
-Lemma run_inv : forall n h s s', Inv n s -> run n h s = Ok s' -> Inv n s'.
-Proof.
-  intros n. induction h as [|o t IH]; intros s s' I H; simpl in H.
-  - inversion H; subst; exact I.
-  - destruct (step n o s) as [s1| | | |] eqn:Hs; try discriminate.
-    eapply IH; [|exact H]. eapply step_inv; eassumption.
-Qed.
 
 (* ------------------------------------------------------------------ the forest property, as the statement reads it *)
 
@@ -772,44 +700,6 @@ Proof.
     destruct (upd_root _ _ _ _ _ _); [|discriminate]. inversion H. reflexivity.
 Qed.
 
-Lemma dispatch_disp : forall n r e s s', dispatch n r e s = Ok s' ->
-  exists d, disp s' = d :: disp s /\ d_root d = r /\ d_ev d = e.
-Proof.
-  intros n r e s s' H. unfold dispatch in H.
-  destruct (lookup n r e s) as [s1 ms] eqn:Hl.
-  assert (T : disp s1 = disp s).
-  { unfold lookup in Hl. destruct (dirty s r); destruct (find_key _ _); inversion Hl; reflexivity. }
-  set (d := mkd r e ms (forallb (fun x => rt s1 x =? r) ms)) in *.
-  exists d. split; [|split; reflexivity].
-  rewrite <- T.
-  destruct e; cbv beta iota in H; try (inversion H; reflexivity).
-  destruct (existsb (Nat.eqb c) ms); [|inversion H; reflexivity].
-  apply complete_disp in H. exact H.
-Qed.
-
-Lemma dispatch_all_disp : forall n r sched s s', dispatch_all n r sched s = Ok s' ->
-  exists ds, disp s' = ds ++ disp s /\ map d_ev (rev ds) = sched /\ (forall d, In d ds -> d_root d = r).
-Proof.
-  intros n r. induction sched as [|e t IH]; intros s s' H; simpl in H.
-  - inversion H; subst. exists []. split; [reflexivity | split; [reflexivity | intros d []]].
-  - destruct (dispatch n r e s) as [s1| | | |] eqn:Hd; try discriminate.
-    destruct (dispatch_disp _ _ _ _ _ Hd) as [d [E1 [E2 E3]]].
-    destruct (IH _ _ H) as [ds [F1 [F2 F3]]].
-    exists (ds ++ [d]). split; [|split].
-    + rewrite F1, E1, <- app_assoc. reflexivity.
-    + rewrite rev_app_distr. simpl. rewrite E3, F2. reflexivity.
-    + intros d' Hin. apply in_app_or in Hin. destruct Hin as [Hin|[<-|[]]]; [apply F3; exact Hin | exact E2].
-Qed.
-
-Lemma flush_dispatches_batch : forall n r sched s s', flush n r sched s = Ok s' ->
-  Permutation sched (q s r) /\
-  exists ds, disp s' = ds ++ disp s /\ map d_ev (rev ds) = sched /\ (forall d, In d ds -> d_root d = r).
-Proof.
-  intros n r sched s s' H. unfold flush in H.
-  destruct (is_perm sched (q s r)) eqn:P; [|discriminate].
-  split; [apply is_perm_perm; exact P|].
-  apply dispatch_all_disp in H. exact H.
-Qed.
 
 (* ------------------------------------------------------------------ announcements: nothing lost, nothing doubled *)
 
@@ -905,275 +795,6 @@ Proof.
 Qed.
 
 (* one dispatch, decomposed *)
-Lemma dispatch_shape : forall n r e s s', Inv n s -> par s r = r -> dispatch n r e s = Ok s' ->
-  exists s2 d, Inv n s2 /\ q s2 = q s /\ regd s2 = regd s /\ unregd s2 = unregd s /\
-    disp s2 = d :: disp s /\ d_ev d = e /\
-    match e with
-    | PrepUnreg c => s' = enq (rt s2 r) (PrepDone c) s2
-    | PrepDone c => complete n c s2 = Ok s' \/ s' = s2
-    | _ => s' = s2
-    end.
-Proof.
-  intros n r e s s' I Hr H. unfold dispatch in H.
-  destruct (lookup n r e s) as [s1 ms] eqn:Hl.
-  destruct (lookup_inv _ _ _ _ _ _ I Hr Hl) as [I1 [Hms T]].
-  destruct T as [T1 [T2 [T3 [T4 [T5 [T6 [T7 T8]]]]]]].
-  set (d := mkd r e ms (forallb (fun x => rt s1 x =? r) ms)) in *.
-  exists (set_disp s1 (d :: disp s1)), d.
-  split.
-  { unfold Inv; proj. apply invF_disp; [exact I1|]. cbn [d_ok d].
-    apply forallb_forall. intros x Hx. apply Nat.eqb_eq. apply Hms. exact Hx. }
-  proj. split; [exact T5|]. split; [exact T6|]. split; [exact T7|]. split; [rewrite T8; reflexivity|].
-  split; [reflexivity|].
-  destruct e as [i|a b|a b|a|a|]; cbv beta iota in H; try (inversion H; subst s'; reflexivity).
-  destruct (existsb (Nat.eqb a) ms); [left; exact H | right; inversion H; subst s'; reflexivity].
-Qed.
-
-Lemma dispatch_bal : forall n r e0 s s', Inv n s -> par s r = r -> dispatch n r e0 s = Ok s' ->
-  forall e, isann e = true ->
-  tot n s' e + gh s e = tot n s e + gh s' e + (if ev_eqb e e0 then 1 else 0).
-Proof.
-  intros n r e0 s s' I Hr H e A.
-  destruct (dispatch_shape _ _ _ _ _ I Hr H) as [s2 [d [I2 [Q [R [U [D [De C]]]]]]]].
-  assert (B2 : tot n s2 e = tot n s e + (if ev_eqb e e0 then 1 else 0) /\ gh s2 e = gh s e).
-  { unfold tot, gh. rewrite Q, R, U, D. split; [|reflexivity].
-    unfold dcount. simpl. rewrite De. destruct (ev_eqb e e0); simpl; lia. }
-  destruct B2 as [B2 G2].
-  assert (Same : s' = s2 -> tot n s' e + gh s e = tot n s e + gh s' e + (if ev_eqb e e0 then 1 else 0)).
-  { intros ->. lia. }
-  destruct e0; try (apply Same; exact C).
-  - (* PrepUnreg *) subst s'. unfold tot, gh in *. proj.
-    rewrite qcount_enq_other by (destruct e; simpl in A |- *; congruence). lia.
-  - (* PrepDone *) destruct C as [C|C]; [|apply Same; exact C].
-    destruct (complete_ok _ _ _ _ C) as [Hp Hrest].
-    assert (Hatt : par s2 c <> c) by (apply (i_pend _ _ _ _ _ _ _ _ I2); exact Hp).
-    destruct (Hrest Hatt) as [f [_ ->]].
-    assert (Hcn : rt s2 c < n).
-    { apply (i_rtlt _ _ _ _ _ _ _ _ I2). apply (i_kidlt _ _ _ _ _ _ _ _ I2 (par s2 c)).
-      apply (i_kid _ _ _ _ _ _ _ _ I2). split; [reflexivity | congruence]. }
-    unfold tot, gh in *. proj.
-    destruct (ev_eqb e (Unregistered c (par s2 c))) eqn:E.
-    + apply ev_eqb_eq in E. subst e. rewrite qcount_enq_same by exact Hcn.
-      unfold cntp at 2. simpl. rewrite !Nat.eqb_refl. simpl. fold (cntp c (par s2 c) (unregd s2)).
-      simpl in B2, G2 |- *. lia.
-    + rewrite qcount_enq_other by exact E.
-      destruct e as [| | a b | | |]; simpl in A; try discriminate; simpl in G2, B2 |- *; [lia|].
-      unfold cntp at 2. simpl. simpl in E. rewrite E. fold (cntp a b (unregd s2)). lia.
-Qed.
-
-Lemma dispatch_all_bal : forall n r sched s s', Inv n s -> par s r = r -> dispatch_all n r sched s = Ok s' ->
-  forall e, isann e = true -> tot n s' e + gh s e = tot n s e + gh s' e + cnt e sched.
-Proof.
-  intros n r. induction sched as [|e0 t IH]; intros s s' I Hr H e A; simpl in H.
-  - inversion H; subst. unfold cnt; simpl. lia.
-  - destruct (dispatch n r e0 s) as [s1| | | |] eqn:Hd; try discriminate.
-    destruct (dispatch_inv _ _ _ _ _ I Hr Hd) as [I1 Hr1].
-    pose proof (dispatch_bal _ _ _ _ _ I Hr Hd e A) as B1.
-    pose proof (IH _ _ I1 Hr1 H e A) as B2.
-    unfold cnt in *. simpl. destruct (ev_eqb e e0); simpl; lia.
-Qed.
-
-Definition Bal (n : nat) (s : st) : Prop := forall e, isann e = true -> tot n s e = gh s e.
-
-Lemma flush_bal : forall n r sched s s', Inv n s -> par s r = r -> r < n -> Bal n s ->
-  flush n r sched s = Ok s' -> Bal n s'.
-Proof.
-  intros n r sched s s' I Hr Hrn B H e A. unfold flush in H.
-  destruct (is_perm sched (q s r)) eqn:P; [|discriminate].
-  apply is_perm_perm in P. pose proof (cnt_perm e _ _ P) as CP.
-  set (s0 := set_q s (upd (q s) r [])) in *.
-  assert (I0 : Inv n s0) by exact I.
-  pose proof (dispatch_all_bal _ _ _ _ _ I0 Hr H e A) as D.
-  assert (E0 : tot n s0 e + cnt e (q s r) = tot n s e).
-  { unfold tot, s0. proj. pose proof (qcount_upd n e (q s) r [] Hrn) as E.
-    unfold cnt at 2 in E. simpl in E. lia. }
-  assert (G0 : gh s0 e = gh s e) by reflexivity.
-  specialize (B e A). lia.
-Qed.
-
-Lemma tick1_bal : forall n r sched s s', Inv n s -> r < n -> Bal n s -> tick1 n r sched s = Ok s' -> Bal n s'.
-Proof.
-  intros n r sched s s' I Hr B H. unfold tick1 in H. destruct (q s r).
-  - destruct sched; [inversion H; subst; exact B | discriminate].
-  - eapply flush_bal; [exact I | | | exact B | exact H].
-    + apply (i_rtroot _ _ _ _ _ _ _ _ I).
-    + apply (i_rtlt _ _ _ _ _ _ _ _ I). exact Hr.
-Qed.
-
-Lemma ticks_bal : forall n r scheds s s', Inv n s -> r < n -> Bal n s -> ticks n r scheds s = Ok s' -> Bal n s'.
-Proof.
-  intros n r. induction scheds as [|sc t IH]; intros s s' I Hr B H; simpl in H.
-  - inversion H; subst; exact B.
-  - destruct (tick1 n r sc s) as [s1| | | |] eqn:Ht; try discriminate.
-    eapply IH; [| exact Hr | | exact H]; [eapply tick1_inv | eapply tick1_bal]; eassumption.
-Qed.
-
-Lemma enq_bal_other : forall n x e0 s, isann e0 = false -> Bal n s -> Bal n (enq x e0 s).
-Proof.
-  intros n x e0 s A0 B e A. specialize (B e A). unfold tot, gh in *. proj.
-  rewrite qcount_enq_other; [exact B|]. destruct e, e0; simpl in *; congruence.
-Qed.
-
-Lemma register_bal : forall n c p s s', Inv n s -> Bal n s -> register n c p s = Ok s' -> Bal n s'.
-Proof.
-  intros n c p s s' I B H e A.
-  destruct (register_queue _ _ _ _ _ I H) as [Hrc _].
-  destruct (register_ok _ _ _ _ _ H) as [Hc [Hp [Hdet [Hnp [Hout [Hcp [f [Hu E]]]]]]]].
-  assert (HR : rt s p < n) by (apply (i_rtlt _ _ _ _ _ _ _ _ I); exact Hp).
-  rewrite E in Hrc |- *. proj_in Hrc. specialize (B e A). unfold tot, gh in *. proj. rewrite Hrc.
-  set (q1 := upd (q s) (rt s p) (q s (rt s p) ++ q s c)).
-  set (q2 := upd q1 c []).
-  assert (E1 : qcount n q1 e = qcount n (q s) e + cnt e (q s c)).
-  { pose proof (qcount_upd n e (q s) (rt s p) (q s (rt s p) ++ q s c) HR) as X. rewrite cnt_app in X. unfold q1. lia. }
-  assert (E2 : qcount n q2 e + cnt e (q s c) = qcount n q1 e).
-  { pose proof (qcount_upd n e q1 c [] Hc) as X. unfold q1 at 2 in X.
-    rewrite upd_other in X by (intro Y; apply Hout; symmetry; exact Y).
-    unfold cnt at 2 in X. simpl in X. unfold q2. lia. }
-  destruct (ev_eqb e (Registered c p)) eqn:Ee.
-  - apply ev_eqb_eq in Ee. subst e. rewrite qcount_enq_same by exact HR.
-    unfold cntp at 1. simpl. rewrite !Nat.eqb_refl. simpl. fold (cntp c p (regd s)). simpl in B. lia.
-  - rewrite qcount_enq_other by exact Ee.
-    destruct e as [|a b| | | |]; simpl in A; try discriminate; simpl in B |- *; [|lia].
-    unfold cntp at 1. simpl. simpl in Ee. rewrite Ee. fold (cntp a b (regd s)). lia.
-Qed.
-
-Lemma step_bal : forall n o s s', Inv n s -> Bal n s -> step n o s = Ok s' -> Bal n s'.
-Proof.
-  intros n o s s' I B H. destruct o as [c p|c|x i|r scheds|x sched]; simpl in H.
-  - eapply register_bal; eassumption.
-  - unfold unregister in H. destruct (c <? n); [|discriminate].
-    destruct (par s c =? c); [discriminate|]. cbn [andb negb] in H.
-    destruct (pend s c); inversion H; subst; [exact B|]. apply enq_bal_other; [reflexivity | exact B].
-  - destruct (x <? n); [|discriminate]. inversion H; subst. apply enq_bal_other; [reflexivity | exact B].
-  - destruct (r <? n) eqn:L; [|discriminate]. destruct (par s r =? r); [|discriminate].
-    apply Nat.ltb_lt in L. cbn [andb] in H. eapply ticks_bal; [exact I | exact L | exact B | exact H].
-  - destruct (x <? n) eqn:L; [|discriminate]. apply Nat.ltb_lt in L.
-    eapply flush_bal; [exact I | | | exact B | exact H].
-    + apply (i_rtroot _ _ _ _ _ _ _ _ I).
-    + apply (i_rtlt _ _ _ _ _ _ _ _ I). exact L.
-Qed.
-
-Lemma run_bal : forall n h s s', Inv n s -> Bal n s -> run n h s = Ok s' -> Bal n s'.
-Proof.
-  intros n. induction h as [|o t IH]; intros s s' I B H; simpl in H.
-  - inversion H; subst; exact B.
-  - destruct (step n o s) as [s1| | | |] eqn:Hs; try discriminate.
-    eapply IH; [| | exact H]; [eapply step_inv | eapply step_bal]; eassumption.
-Qed.
-
-Lemma bal_init : forall n, Bal n init.
-Proof.
-  intros n e A. unfold tot, gh, qcount, qsum, dcount, init; simpl.
-  assert (Z : forall l, list_sum (map (fun _ : nat => cnt e []) l) = 0).
-  { induction l; simpl; [reflexivity | exact IHl]. }
-  rewrite Z. destruct e; reflexivity.
-Qed.
-
-(* the ghost list of registrations is the list of register ops of the history *)
-Lemma dispatch_all_regd : forall n r sched s s', Inv n s -> par s r = r ->
-  dispatch_all n r sched s = Ok s' -> regd s' = regd s.
-Proof.
-  intros n r. induction sched as [|e0 t IH]; intros s s' I Hr H; simpl in H.
-  - inversion H; reflexivity.
-  - destruct (dispatch n r e0 s) as [s1| | | |] eqn:Hd; try discriminate.
-    destruct (dispatch_inv _ _ _ _ _ I Hr Hd) as [I1 Hr1].
-    rewrite (IH _ _ I1 Hr1 H).
-    destruct (dispatch_shape _ _ _ _ _ I Hr Hd) as [s2 [d [_ [_ [R [_ [_ [_ C]]]]]]]].
-    destruct e0 as [i|a b|a b|a|a|].
-    5:{ destruct C as [C| ->]; [|exact R]. rewrite (complete_regd _ _ _ _ C). exact R. }
-    all: rewrite C; exact R.
-Qed.
-
-Lemma step_regd : forall n o s s' c p, Inv n s -> step n o s = Ok s' ->
-  cntp c p (regd s') = cntp c p (regd s) + count_reg c p [o].
-Proof.
-  intros n o s s' c p I H. destruct o as [a b|a|x i|r scheds|x sched]; simpl in H |- *.
-  - destruct (register_ok _ _ _ _ _ H) as [_ [_ [_ [_ [_ [_ [f [_ ->]]]]]]]]. proj.
-    unfold cntp. simpl. destruct ((c =? a) && (p =? b)); simpl; lia.
-  - unfold unregister in H. destruct (a <? n); [|discriminate].
-    destruct (par s a =? a); [discriminate|]. cbn [andb negb] in H.
-    destruct (pend s a); inversion H; subst; proj; lia.
-  - destruct (x <? n); [|discriminate]. inversion H; subst. proj. lia.
-  - destruct ((r <? n) && (par s r =? r)); [|discriminate].
-    assert (X : forall scheds s s', Inv n s -> ticks n r scheds s = Ok s' -> regd s' = regd s).
-    { induction scheds0 as [|sc t IH]; intros s0 s0' I0 H0; simpl in H0; [inversion H0; reflexivity|].
-      destruct (tick1 n r sc s0) as [s1| | | |] eqn:Ht; try discriminate.
-      rewrite (IH _ _ (tick1_inv _ _ _ _ _ I0 Ht) H0).
-      unfold tick1 in Ht. destruct (q s0 r).
-      - destruct sc; [inversion Ht; reflexivity | discriminate].
-      - unfold flush in Ht. destruct (is_perm sc (q s0 (rt s0 r))); [|discriminate].
-        eapply (dispatch_all_regd _ _ _ (set_q s0 (upd (q s0) (rt s0 r) []))); [exact I0 | | exact Ht].
-        apply (i_rtroot _ _ _ _ _ _ _ _ I0). }
-    rewrite (X _ _ _ I H). lia.
-  - destruct (x <? n); [|discriminate]. unfold flush in H.
-    destruct (is_perm sched (q s (rt s x))); [|discriminate].
-    rewrite (dispatch_all_regd _ _ _ (set_q s (upd (q s) (rt s x) [])) _ I (i_rtroot _ _ _ _ _ _ _ _ I x) H). proj. lia.
-Qed.
-
-Lemma run_regd : forall n h s s' c p, Inv n s -> run n h s = Ok s' ->
-  cntp c p (regd s') = cntp c p (regd s) + count_reg c p h.
-Proof.
-  intros n. induction h as [|o t IH]; intros s s' c p I H; simpl in H.
-  - inversion H; subst. simpl. lia.
-  - destruct (step n o s) as [s1| | | |] eqn:Hs; try discriminate.
-    rewrite (IH _ _ c p (step_inv _ _ _ _ I Hs) H). rewrite (step_regd _ _ _ _ c p I Hs).
-    destruct o; simpl; lia.
-Qed.
-
-(* ------------------------------------------------------------------ lifted to histories *)
-
-Lemma run_inv0 : forall n h s, run n h init = Ok s -> Inv n s.
-Proof. intros n h s H. eapply run_inv; [apply inv_init | exact H]. Qed.
-
-Lemma run_forest : forall n h s, run n h init = Ok s -> forest s.
-Proof. intros n h s H. eapply inv_forest. eapply run_inv0; exact H. Qed.
-
-Lemma run_subtree_reading : forall n h s c p, run n h init = Ok s -> par s c = c ->
-  (rt s p = c <-> desc (kid s) c p).
-Proof. intros n h s c p H. eapply inv_subtree_reading. eapply run_inv0; exact H. Qed.
-
-Lemma run_pending_attached : forall n h s c, run n h init = Ok s -> pend s c = true -> par s c <> c.
-Proof. intros n h s c H. eapply inv_pending_attached. eapply run_inv0; exact H. Qed.
-
-Lemma run_deliveries : forall n h s d, run n h init = Ok s -> In d (disp s) -> d_ok d = true.
-Proof. intros n h s d H. apply (i_disp _ _ _ _ _ _ _ _ (run_inv0 _ _ _ H)). Qed.
-
-Lemma run_detach_connected : forall n h s c s', run n h init = Ok s -> complete n c s = Ok s' ->
-  par s' c = c /\ pend s' c = false /\ kid s' (par s c) c = false /\
-  (forall x, desc (kid s) c x ->
-     rt s' x = c /\ desc (kid s') c x /\ (x <> c -> par s' x = par s x /\ kid s' (par s x) x = kid s (par s x) x)) /\
-  (forall x, ~ desc (kid s) c x -> rt s' x = rt s x /\ par s' x = par s x).
-Proof. intros n h s c s' H. apply detach_connected. eapply run_inv0; exact H. Qed.
-
-Lemma run_move_connected : forall n h s c p s', run n h init = Ok s -> register n c p s = Ok s' ->
-  par s' c = p /\ kid s' p c = true /\
-  (forall x, desc (kid s) c x ->
-     rt s' x = rt s p /\ desc (kid s') c x /\ (x <> c -> par s' x = par s x /\ kid s' (par s x) x = kid s (par s x) x)) /\
-  (forall x, ~ desc (kid s) c x -> rt s' x = rt s x /\ par s' x = par s x).
-Proof. intros n h s c p s' H. apply move_connected. eapply run_inv0; exact H. Qed.
-
-Lemma run_register_queue : forall n h s c p s', run n h init = Ok s -> register n c p s = Ok s' ->
-  rt s' c = rt s p /\
-  q s' (rt s p) = q s (rt s p) ++ q s c ++ [Registered c p] /\
-  q s' c = [] /\
-  (forall x, x <> c -> x <> rt s p -> q s' x = q s x).
-Proof. intros n h s c p s' H. apply register_queue. eapply run_inv0; exact H. Qed.
-
-Lemma run_announce_registered : forall n h s c p, run n h init = Ok s ->
-  qcount n (q s) (Registered c p) + dcount (disp s) (Registered c p) = count_reg c p h.
-Proof.
-  intros n h s c p H.
-  pose proof (run_bal _ _ _ _ (inv_init n) (bal_init n) H (Registered c p) eq_refl) as B.
-  pose proof (run_regd _ _ _ _ c p (inv_init n) H) as R.
-  unfold tot, gh in B. simpl in R. rewrite B, R. reflexivity.
-Qed.
-
-Lemma run_announce_unregistered : forall n h s c p, run n h init = Ok s ->
-  qcount n (q s) (Unregistered c p) + dcount (disp s) (Unregistered c p) = cntp c p (unregd s).
-Proof.
-  intros n h s c p H.
-  exact (run_bal _ _ _ _ (inv_init n) (bal_init n) H (Unregistered c p) eq_refl).
-Qed.
 
 (* ================================================================== C07_run_ok: no Crash, no OutOfFuel *)
 
@@ -1307,8 +928,11 @@ Qed.
 Definition occ (n : nat) (qf : comp -> list ev) (rem : list ev) (c : comp) : nat :=
   qcount n qf (PrepUnreg c) + qcount n qf (PrepDone c) + cnt (PrepUnreg c) rem + cnt (PrepDone c) rem.
 
+(* dispatched prepare_unregister(c) events whose completion event is still held back by their effects *)
+Definition wcount (c : comp) (l : list (nat * comp)) : nat := length (filter (fun e => snd e =? c) l).
+
 Definition PI (n : nat) (s : st) (rem : list ev) : Prop :=
-  forall c, occ n (q s) rem c <= (if pend s c then 1 else 0).
+  forall c, occ n (q s) rem c + wcount c (wl (fx s)) <= (if pend s c then 1 else 0).
 
 Lemma cnt_cons : forall e e0 t, cnt e (e0 :: t) = (if ev_eqb e e0 then 1 else 0) + cnt e t.
 Proof. intros. unfold cnt. simpl. destruct (ev_eqb e e0); reflexivity. Qed.
@@ -1326,71 +950,6 @@ Proof.
   - rewrite qcount_enq_other by exact E. lia.
 Qed.
 
-Lemma dispatch_unfold : forall n r e s, Inv n s -> par s r = r ->
-  exists s2 ms, Inv n s2 /\ q s2 = q s /\ pend s2 = pend s /\ par s2 = par s /\
-    dispatch n r e s = match e with
-                       | PrepUnreg c => Ok (enq (rt s2 r) (PrepDone c) s2)
-                       | PrepDone c => if existsb (Nat.eqb c) ms then complete n c s2 else Ok s2
-                       | _ => Ok s2
-                       end.
-Proof.
-  intros n r e s I Hr. unfold dispatch.
-  destruct (lookup n r e s) as [s1 ms] eqn:Hl.
-  destruct (lookup_inv _ _ _ _ _ _ I Hr Hl) as [I1 [Hms T]].
-  destruct T as [T1 [T2 [T3 [T4 [T5 [T6 [T7 T8]]]]]]].
-  set (d := mkd r e ms (forallb (fun x => rt s1 x =? r) ms)).
-  exists (set_disp s1 (d :: disp s1)), ms.
-  split.
-  { unfold Inv; proj. apply invF_disp; [exact I1|]. cbn [d_ok d].
-    apply forallb_forall. intros x Hx. apply Nat.eqb_eq. apply Hms. exact Hx. }
-  proj. split; [exact T5|]. split; [exact T4|]. split; [exact T1|].
-  destruct e; reflexivity.
-Qed.
-
-Lemma PI_weaken : forall n s s2 e0 t, q s2 = q s -> pend s2 = pend s -> PI n s (e0 :: t) -> PI n s2 t.
-Proof.
-  intros n s s2 e0 t Q P H c. specialize (H c). unfold occ in *. rewrite Q, P.
-  rewrite !cnt_cons in H. lia.
-Qed.
-
-Lemma dispatch_progress : forall n r e0 t s, Inv n s -> par s r = r -> PI n s (e0 :: t) ->
-  exists s', dispatch n r e0 s = Ok s' /\ PI n s' t.
-Proof.
-  intros n r e0 t s I Hr H.
-  destruct (dispatch_unfold n r e0 s I Hr) as [s2 [ms [I2 [Q [P [Pa E]]]]]].
-  rewrite E. pose proof (PI_weaken _ _ _ _ _ Q P H) as W.
-  destruct e0 as [i|a b|a b|a|a|]; try (exists s2; split; [reflexivity | exact W]).
-  - (* prepare_unregister(a): its completion event is fired *)
-    eexists. split; [reflexivity|]. intro c. specialize (H c). unfold occ in *. proj.
-    rewrite Q, P. rewrite !cnt_cons in H.
-    pose proof (qcount_enq_le n (PrepUnreg c) (q s) (rt s2 r) (PrepDone a)) as L1.
-    pose proof (qcount_enq_le n (PrepDone c) (q s) (rt s2 r) (PrepDone a)) as L2.
-    simpl in H, L1, L2. destruct (c =? a); lia.
-  - (* prepare_unregister_complete(a) *)
-    destruct (existsb (Nat.eqb a) ms); [|exists s2; split; [reflexivity | exact W]].
-    assert (Hp : pend s2 a = true).
-    { specialize (H a). unfold occ in H. rewrite !cnt_cons in H. simpl in H. rewrite Nat.eqb_refl in H.
-      rewrite P. destruct (pend s a); [reflexivity | lia]. }
-    destruct (complete_progress n a s2 I2 Hp) as [s' Hs']. exists s'. split; [exact Hs'|].
-    destruct (complete_ok _ _ _ _ Hs') as [_ Hrest].
-    destruct (Hrest (i_pend _ _ _ _ _ _ _ _ I2 a Hp)) as [f [_ ->]].
-    intro c. specialize (H c). unfold occ in *. proj. rewrite Q, P. rewrite !cnt_cons in H.
-    rewrite !qcount_enq_other by reflexivity. simpl in H.
-    destruct (Nat.eq_dec c a) as [->|N].
-    + rewrite upd_same. rewrite Nat.eqb_refl in H. destruct (pend s a); lia.
-    + rewrite upd_other by exact N. rewrite (proj2 (Nat.eqb_neq _ _) N) in H. lia.
-Qed.
-
-Lemma dispatch_all_progress : forall n r sched s, Inv n s -> par s r = r -> PI n s sched ->
-  exists s', dispatch_all n r sched s = Ok s' /\ Inv n s' /\ PI n s' [].
-Proof.
-  intros n r. induction sched as [|e0 t IH]; intros s I Hr H.
-  - exists s. split; [reflexivity | split; assumption].
-  - destruct (dispatch_progress _ _ _ _ _ I Hr H) as [s1 [Hd H1]].
-    destruct (dispatch_inv _ _ _ _ _ I Hr Hd) as [I1 Hr1].
-    destruct (IH s1 I1 Hr1 H1) as [s' [Ha [I' H']]].
-    exists s'. simpl. rewrite Hd. split; [exact Ha | split; assumption].
-Qed.
 
 Lemma remove1_in : forall e l, In e l -> exists l', remove1 e l = Some l'.
 Proof.
@@ -1409,20 +968,602 @@ Proof.
     apply remove1_perm in R. eapply Permutation_cons_inv. eapply perm_trans; [exact H | exact R].
 Qed.
 
-Lemma flush_progress : forall n r sched s, Inv n s -> par s r = r -> r < n -> PI n s [] ->
-  Permutation sched (q s r) ->
-  exists s', flush n r sched s = Ok s' /\ Inv n s' /\ PI n s' [].
+
+Lemma qcount_empty : forall n e, qcount n (fun _ => []) e = 0.
 Proof.
-  intros n r sched s I Hr Hrn H P. unfold flush. rewrite (perm_is_perm _ _ P).
-  apply dispatch_all_progress; [exact I | exact Hr|].
-  intro c. specialize (H c). unfold occ in *. proj. rewrite !cnt_nil in H.
-  rewrite (cnt_perm _ _ _ P), (cnt_perm (PrepDone c) _ _ P).
-  pose proof (qcount_upd n (PrepUnreg c) (q s) r [] Hrn) as E1.
-  pose proof (qcount_upd n (PrepDone c) (q s) r [] Hrn) as E2.
-  rewrite cnt_nil in E1, E2. lia.
+  intros n e. unfold qcount, qsum. induction (seq 0 n) as [|a l IH]; simpl; [reflexivity | exact IH].
 Qed.
 
-(* ------------------------------------------------------------------ histories that satisfy the preconditions *)
+
+(* ================================================================== the invariants, with a batch in flight *)
+
+(* announcement events queued in the pool, dispatched so far and still to be dispatched in the current batch
+   are as many as the completed registrations / unregistrations *)
+Definition BI (n : nat) (s : st) (rem : list ev) : Prop :=
+  forall e, isann e = true -> tot n s e + cnt e rem = gh s e.
+
+Definition GI (n : nat) (s : st) (rem : list ev) : Prop := Inv n s /\ PI n s rem /\ BI n s rem.
+
+(* outcome discipline: Ok with the postcondition, or one of the two verdicts on the hypotheses; never a
+   crash, never out of fuel *)
+Definition post {A : Type} (P : A -> Prop) (r : res A) : Prop :=
+  match r with Ok a => P a | PreViolated | BadSched => True | OutOfFuel | Crash => False end.
+
+Lemma isann_prep : forall e c, isann e = true -> ev_eqb e (PrepUnreg c) = false /\ ev_eqb e (PrepDone c) = false.
+Proof. intros e c A. destruct e; simpl in A; try discriminate; split; reflexivity. Qed.
+
+(* the completion tracking does not enter the invariants, except for the waiting list *)
+Lemma gi_set_fx : forall n s rem x, GI n s rem -> wl x = wl (fx s) -> GI n (set_fx s x) rem.
+Proof.
+  intros n s rem x [I [H B]] W. split; [exact I|]. split.
+  - intro c. specialize (H c). proj. rewrite W. exact H.
+  - exact B.
+Qed.
+
+Lemma emit_fx_wl : forall c R e x, wl (emit_fx c R e x) = wl x.
+Proof. intros c R e x. destruct e; reflexivity. Qed.
+
+Lemma with_fx_ok : forall r x s', with_fx r x = Ok s' -> exists s0, r = Ok s0 /\ s' = set_fx s0 x.
+Proof. intros r x s' H. destruct r; try discriminate. inversion H. eexists. split; reflexivity. Qed.
+
+(* ------------------------------------------------------------------ register *)
+
+Lemma register_qcount : forall n c p s s', Inv n s -> register n c p s = Ok s' ->
+  forall e, qcount n (q s') e = qcount n (q s) e + (if ev_eqb e (Registered c p) then 1 else 0).
+Proof.
+  intros n c p s s' I R e.
+  pose proof (register_queue _ _ _ _ _ I R) as [Hrc _].
+  destruct (register_ok _ _ _ _ _ R) as [Hc [Hp [_ [_ [Hrp [_ [f [_ E]]]]]]]].
+  assert (HR : rt s p < n) by (apply (i_rtlt _ _ _ _ _ _ _ _ I); exact Hp).
+  rewrite E in Hrc |- *. proj_in Hrc. proj. rewrite Hrc.
+  assert (X : qcount n (upd (upd (q s) (rt s p) (q s (rt s p) ++ q s c)) c []) e = qcount n (q s) e).
+  { pose proof (qcount_upd n e (q s) (rt s p) (q s (rt s p) ++ q s c) HR) as X1. rewrite cnt_app in X1.
+    pose proof (qcount_upd n e (upd (q s) (rt s p) (q s (rt s p) ++ q s c)) c [] Hc) as X2.
+    rewrite upd_other in X2 by (intro Y; apply Hrp; symmetry; exact Y). rewrite cnt_nil in X2. lia. }
+  destruct (ev_eqb e (Registered c p)) eqn:Ee.
+  - apply ev_eqb_eq in Ee. subst e. rewrite qcount_enq_same by exact HR. lia.
+  - rewrite qcount_enq_other by exact Ee. lia.
+Qed.
+
+Lemma register_fields : forall n c p s s', register n c p s = Ok s' ->
+  pend s' = pend s /\ disp s' = disp s /\ unregd s' = unregd s /\ regd s' = (c, p) :: regd s /\ fx s' = fx s.
+Proof.
+  intros n c p s s' R. destruct (register_ok _ _ _ _ _ R) as [_ [_ [_ [_ [_ [_ [f [_ ->]]]]]]]].
+  repeat split; reflexivity.
+Qed.
+
+Lemma register_gi : forall n c p s s' rem, GI n s rem -> register n c p s = Ok s' -> GI n s' rem.
+Proof.
+  intros n c p s s' rem [I [H B]] R.
+  pose proof (register_qcount _ _ _ _ _ I R) as Q.
+  destruct (register_fields _ _ _ _ _ R) as [Fp [Fd [Fu [Fr Fx]]]].
+  split; [eapply register_inv; eassumption|]. split.
+  - intro c'. specialize (H c'). unfold occ in *. rewrite !Q, Fp, Fx. simpl. lia.
+  - intros e A. specialize (B e A). unfold tot, gh in *. rewrite Q, Fd.
+    destruct e as [|a b|a b| | |]; simpl in A; try discriminate.
+    + rewrite Fr. simpl in B |- *. unfold cntp in *. simpl.
+      destruct ((a =? c) && (b =? p)); simpl; lia.
+    + rewrite Fu. simpl in B |- *. lia.
+Qed.
+
+Lemma register_safe : forall n c p s, Inv n s -> post (fun _ => True) (register n c p s).
+Proof.
+  intros n c p s I.
+  destruct ((c <? n) && (p <? n) && (par s c =? c) && negb (pend s c) && negb (rt s p =? c) && negb (c =? p)) eqn:C.
+  - repeat (apply andb_prop in C; destruct C as [C ?]).
+    apply Nat.ltb_lt in C. apply Nat.ltb_lt in H3. apply Nat.eqb_eq in H2.
+    apply negb_true_iff in H1. apply negb_true_iff in H0. apply Nat.eqb_neq in H0.
+    destruct (register_progress n c p s I C H3 H2 H1) as [s' R].
+    + intro D. apply H0. apply (inv_subtree_reading _ _ _ _ I H2). exact D.
+    + rewrite R. exact Logic.I.
+  - unfold register. rewrite C. exact Logic.I.
+Qed.
+
+(* registering c elsewhere leaves a root r <> c and its whole tree alone *)
+Lemma register_other_tree : forall n c p s s' r, Inv n s -> register n c p s = Ok s' -> c <> r -> par s r = r ->
+  par s' r = r /\ forall y, rt s y = r -> rt s' y = r.
+Proof.
+  intros n c p s s' r I R Ncr Hr.
+  destruct (register_ok _ _ _ _ _ R) as [_ [_ [Hdet _]]].
+  destruct (move_connected _ _ _ _ _ I R) as [_ [_ [_ Hout]]].
+  assert (Hnot : forall y, rt s y = r -> ~ desc (kid s) c y).
+  { intros y Hy D. apply Ncr. rewrite <- Hy, (desc_rt _ _ _ _ _ _ _ _ I c y D).
+    symmetry. apply (i_self _ _ _ _ _ _ _ _ I). exact Hdet. }
+  split.
+  - destruct (Hout r (Hnot r (i_self _ _ _ _ _ _ _ _ I r Hr))) as [_ E]. rewrite E. exact Hr.
+  - intros y Hy. destruct (Hout y (Hnot y Hy)) as [E _]. rewrite E. exact Hy.
+Qed.
+
+(* ------------------------------------------------------------------ unregister, fire *)
+
+Lemma unregister_gi : forall n c s s' rem, GI n s rem -> unregister n c s = Ok s' ->
+  GI n s' rem /\ par s' = par s /\ rt s' = rt s /\ disp s' = disp s /\ fx s' = fx s.
+Proof.
+  intros n c s s' rem [I [H B]] U. pose proof (unregister_inv _ _ _ _ I U) as I'.
+  unfold unregister in U. destruct (c <? n); [|discriminate].
+  destruct (par s c =? c); [discriminate|]. cbn [andb negb] in U.
+  destruct (pend s c) eqn:Hp; inversion U; subst; clear U.
+  - split; [split; [exact I | split; assumption] | repeat split].
+  - split; [|repeat split]. split; [exact I'|]. split.
+    + intro c'. pose proof (H c') as H'. unfold occ in *. proj.
+      pose proof (qcount_enq_le n (PrepUnreg c') (q s) (rt s c) (PrepUnreg c)) as L1.
+      rewrite (qcount_enq_other n (PrepDone c')) by reflexivity.
+      simpl in L1. destruct (Nat.eq_dec c' c) as [->|N].
+      * rewrite upd_same. rewrite Hp in H'. rewrite Nat.eqb_refl in L1. lia.
+      * rewrite upd_other by exact N. rewrite (proj2 (Nat.eqb_neq _ _) N) in L1. lia.
+    + intros e A. specialize (B e A). unfold tot, gh in *. proj.
+      rewrite qcount_enq_other by (apply (isann_prep e c A)). exact B.
+Qed.
+
+Lemma fire_gi : forall n x i s s' rem, GI n s rem -> fire n x i s = Ok s' ->
+  GI n s' rem /\ par s' = par s /\ rt s' = rt s /\ disp s' = disp s /\ fx s' = fx s.
+Proof.
+  intros n x i s s' rem [I [H B]] F. unfold fire in F. destruct (x <? n); [|discriminate].
+  inversion F; subst; clear F. split; [|repeat split]. split; [exact I|]. split.
+  - intro c. specialize (H c). unfold occ in *. proj. rewrite !qcount_enq_other by reflexivity. exact H.
+  - intros e A. specialize (B e A). unfold tot, gh in *. proj.
+    rewrite qcount_enq_other by (destruct e; simpl in A; try discriminate; reflexivity). exact B.
+Qed.
+
+(* ------------------------------------------------------------------ what handlers do *)
+
+(* what is preserved for the root r whose flush is in progress *)
+Definition keeps (r : comp) (s s' : st) : Prop :=
+  par s' r = r /\ (forall y, rt s y = r -> rt s' y = r) /\ disp s' = disp s.
+
+Lemma act_post : forall c0 n r a s rem, GI n s rem -> par s r = r ->
+  post (fun s' => GI n s' rem /\ keeps r s s') (run_act c0 n r a s).
+Proof.
+  intros c0 n r a s rem G Hr. destruct a as [c p|c|x i]; simpl.
+  - destruct (c =? r) eqn:E; [exact Logic.I|]. apply Nat.eqb_neq in E.
+    pose proof (register_safe n c p s (proj1 G)) as S. unfold registerX.
+    destruct (register n c p s) as [s'| | | |] eqn:R; try exact S.
+    simpl. destruct (register_fields _ _ _ _ _ R) as [_ [Fd [_ [_ Fx]]]]. split.
+    + apply gi_set_fx; [eapply register_gi; eassumption|]. rewrite Fx. reflexivity.
+    + destruct (register_other_tree _ _ _ _ _ r (proj1 G) R E Hr) as [K1 K2].
+      split; [exact K1 | split; [exact K2 | exact Fd]].
+  - unfold unregisterX. destruct (unregister n c s) as [s'| | | |] eqn:U; simpl; try exact Logic.I.
+    + destruct (unregister_gi _ _ _ _ _ G U) as [G' [E1 [E2 [E3 E4]]]]. split.
+      * apply gi_set_fx; [exact G'|]. rewrite E4. destruct (pend s c); reflexivity.
+      * split; [proj; rewrite E1; exact Hr | split; [intros y Hy; proj; rewrite E2; exact Hy | exact E3]].
+    + unfold unregister in U. destruct ((c <? n) && negb (par s c =? c)); [destruct (pend s c)|]; discriminate.
+    + unfold unregister in U. destruct ((c <? n) && negb (par s c =? c)); [destruct (pend s c)|]; discriminate.
+  - unfold fireX. destruct (fire n x i s) as [s'| | | |] eqn:F; simpl; try exact Logic.I.
+    + destruct (fire_gi _ _ _ _ _ _ G F) as [G' [E1 [E2 [E3 E4]]]]. split.
+      * apply gi_set_fx; [exact G'|]. rewrite E4. reflexivity.
+      * split; [proj; rewrite E1; exact Hr | split; [intros y Hy; proj; rewrite E2; exact Hy | exact E3]].
+    + unfold fire in F. destruct (x <? n); discriminate.
+    + unfold fire in F. destruct (x <? n); discriminate.
+Qed.
+
+Lemma keeps_refl : forall r s, par s r = r -> keeps r s s.
+Proof. intros r s H. split; [exact H | split; [intros y Hy; exact Hy | reflexivity]]. Qed.
+
+Lemma keeps_trans : forall r s1 s2 s3, keeps r s1 s2 -> keeps r s2 s3 -> keeps r s1 s3.
+Proof.
+  intros r s1 s2 s3 [A1 [A2 A3]] [B1 [B2 B3]]. split; [exact B1|]. split.
+  - intros y Hy. apply B2. apply A2. exact Hy.
+  - rewrite B3. exact A3.
+Qed.
+
+Lemma acts_post : forall c0 n r l s rem, GI n s rem -> par s r = r ->
+  post (fun s' => GI n s' rem /\ keeps r s s') (run_acts c0 n r l s).
+Proof.
+  intros c0 n r. induction l as [|a t IH]; intros s rem G Hr; simpl.
+  - split; [exact G | apply keeps_refl; exact Hr].
+  - pose proof (act_post c0 n r a s rem G Hr) as P.
+    destruct (run_act c0 n r a s) as [s1| | | |]; try exact P. simpl in P. destruct P as [G1 K1].
+    pose proof (IH s1 rem G1 (proj1 K1)) as P2.
+    destruct (run_acts c0 n r t s1) as [s2| | | |]; try exact P2. simpl in P2 |- *. destruct P2 as [G2 K2].
+    split; [exact G2 | eapply keeps_trans; eassumption].
+Qed.
+
+Lemma handlers_post : forall c0 n r hs ms ok s rem, GI n s rem -> par s r = r ->
+  (forall x, In x ms -> rt s x = r) ->
+  post (fun so => GI n (fst so) rem /\ keeps r s (fst so) /\ snd so = ok) (run_handlers c0 n r ms hs ok s).
+Proof.
+  intros c0 n r hs. induction ms as [|x t IH]; intros ok s rem G Hr Hms; simpl.
+  - split; [exact G | split; [apply keeps_refl; exact Hr | reflexivity]].
+  - pose proof (acts_post c0 n r (acts_of x hs) s rem G Hr) as P.
+    destruct (run_acts c0 n r (acts_of x hs) s) as [s1| | | |]; try exact P. simpl in P. destruct P as [G1 K1].
+    assert (Hok : (ok && (rt s x =? r)) = ok).
+    { rewrite (Hms x (or_introl eq_refl)), Nat.eqb_refl. apply andb_true_r. }
+    rewrite Hok.
+    assert (Hms1 : forall y, In y t -> rt s1 y = r).
+    { intros y Hy. apply (proj1 (proj2 K1)). apply Hms. right. exact Hy. }
+    pose proof (IH ok s1 rem G1 (proj1 K1) Hms1) as P2.
+    destruct (run_handlers c0 n r t hs ok s1) as [so| | | |]; try exact P2. simpl in P2 |- *.
+    destruct P2 as [G2 [K2 E]]. split; [exact G2 | split; [eapply keeps_trans; eassumption | exact E]].
+Qed.
+
+(* ------------------------------------------------------------------ the end of a dispatch: closures *)
+
+Lemma wl_remove_count : forall A l c, wl_find A l = Some c ->
+  forall c', wcount c' (wl_remove A l) + (if c' =? c then 1 else 0) = wcount c' l.
+Proof.
+  intros A. induction l as [|[B d] t IH]; intros c H c'; simpl in H; [discriminate|].
+  unfold wcount in *. simpl. destruct (A =? B).
+  - inversion H; subst. simpl. rewrite (Nat.eqb_sym c c'). destruct (c' =? c); simpl; lia.
+  - specialize (IH c H c'). simpl. destruct (d =? c'); simpl; lia.
+Qed.
+
+(* the prepare_unregister event that has just been dispatched still counts until its completion event is
+   fired or it is put on the waiting list *)
+Definition own (e0 : ev) (c : comp) : nat :=
+  match e0 with PrepUnreg a => if c =? a then 1 else 0 | _ => 0 end.
+
+Definition PIx (n : nat) (s : st) (rem : list ev) (e0 : ev) : Prop :=
+  forall c, occ n (q s) rem c + wcount c (wl (fx s)) + own e0 c <= (if pend s c then 1 else 0).
+
+Lemma pix_of_pi : forall n s e0 t, PI n s (e0 :: t) -> PIx n s t e0.
+Proof.
+  intros n s e0 t H c. specialize (H c). unfold occ in *. rewrite !cnt_cons in H.
+  destruct e0; simpl in H |- *; lia.
+Qed.
+
+Definition same_frame (s s' : st) : Prop := par s' = par s /\ rt s' = rt s /\ disp s' = disp s.
+
+(* firing the completion event of c consumes one unit of the budget of c *)
+Lemma fire_done_gi : forall n R c s x rem k,
+  Inv n s -> BI n s rem ->
+  (forall c', occ n (q s) rem c' + wcount c' (wl x) + (if c' =? c then 1 else 0) + k c' <= (if pend s c' then 1 else 0)) ->
+  let s' := emitX None R (PrepDone c) (set_fx s x) in
+  Inv n s' /\ BI n s' rem /\ same_frame s s' /\
+  (forall c', occ n (q s') rem c' + wcount c' (wl (fx s')) + k c' <= (if pend s' c' then 1 else 0)).
+Proof.
+  intros n R c s x rem k I B H s'. unfold s', emitX. split; [exact I|]. split; [|split; [repeat split|]].
+  - intros e A. specialize (B e A). unfold tot, gh in *. proj.
+    rewrite qcount_enq_other by (apply (isann_prep e c A)). exact B.
+  - intro c'. specialize (H c'). unfold occ in *. proj. rewrite emit_fx_wl. proj.
+    pose proof (qcount_enq_le n (PrepDone c') (q s) R (PrepDone c)) as L.
+    rewrite (qcount_enq_other n (PrepUnreg c')) by reflexivity. simpl in L. lia.
+Qed.
+
+Lemma finish_anc_gi : forall n r tg s rem, Inv n s -> PI n s rem -> BI n s rem ->
+  GI n (finish_anc r tg s) rem /\ same_frame s (finish_anc r tg s).
+Proof.
+  intros n r. induction tg as [|A t IH]; intros s rem I H B; cbn [finish_anc]; cbv zeta.
+  - split; [split; [exact I | split; assumption] | repeat split].
+  - destruct (wl_find A (wl (fx s))) as [c|] eqn:F; [|apply IH; assumption].
+    destruct (out (dec (fx s) A) A =? 0).
+    + destruct (fire_done_gi n (rt s r) c s (set_wl (dec (fx s) A) (wl_remove A (wl (dec (fx s) A)))) rem
+                  (fun _ => 0) I B) as [I1 [B1 [[F1 [F2 F3]] H1]]].
+      { intro c'. specialize (H c'). pose proof (wl_remove_count _ _ _ F c') as W. simpl. lia. }
+      assert (P1 : PI n (emitX None (rt s r) (PrepDone c)
+                          (set_fx s (set_wl (dec (fx s) A) (wl_remove A (wl (dec (fx s) A)))))) rem).
+      { intro c'. specialize (H1 c'). cbv beta in H1. lia. }
+      destruct (IH _ rem I1 P1 B1) as [G2 [K1 [K2 K3]]].
+      split; [exact G2|]. split; [rewrite K1; exact F1 | split; [rewrite K2; exact F2 | rewrite K3; exact F3]].
+    + apply (IH (set_fx s (dec (fx s) A)) rem); assumption.
+Qed.
+
+Lemma finish_gi : forall n r e0 tg s rem, Inv n s -> PIx n s rem e0 -> BI n s rem ->
+  GI n (finish r e0 tg s) rem /\ same_frame s (finish r e0 tg s).
+Proof.
+  intros n r e0 tg s rem I H B.
+  assert (Plain : own e0 = (fun _ => 0) -> GI n (finish_anc r tg s) rem /\ same_frame s (finish_anc r tg s)).
+  { intro E. apply finish_anc_gi; [exact I | | exact B]. intro c. specialize (H c). rewrite E in H. lia. }
+  destruct e0 as [i|a b|a b|a|a|]; try (apply Plain; reflexivity).
+  unfold finish. cbv zeta. destruct tg as [|Bid t].
+  - destruct (fire_done_gi n (rt s r) a s (fx s) rem (fun _ => 0) I B) as [I1 [B1 [Fr H1]]].
+    { intro c. specialize (H c). simpl in H. lia. }
+    split; [|exact Fr]. split; [exact I1|]. split; [|exact B1].
+    intro c. specialize (H1 c). cbv beta in H1. unfold emitX in *. proj_in H1. proj. lia.
+  - destruct (out (dec (fx s) Bid) Bid =? 0).
+    + destruct (fire_done_gi n (rt s r) a s (dec (fx s) Bid) rem (fun _ => 0) I B) as [I1 [B1 [[F1 [F2 F3]] H1]]].
+      { intro c. specialize (H c). simpl in H |- *. lia. }
+      assert (P1 : PI n (emitX None (rt s r) (PrepDone a) (set_fx s (dec (fx s) Bid))) rem).
+      { intro c. specialize (H1 c). cbv beta in H1. lia. }
+      destruct (finish_anc_gi n r t _ rem I1 P1 B1) as [G2 [K1 [K2 K3]]].
+      split; [exact G2|]. split; [rewrite K1; exact F1 | split; [rewrite K2; exact F2 | rewrite K3; exact F3]].
+    + apply (finish_anc_gi n r t (set_fx s (set_wl (dec (fx s) Bid) ((Bid, a) :: wl (dec (fx s) Bid)))) rem);
+        [exact I | | exact B].
+      intro c. specialize (H c). proj. simpl in H |- *. unfold wcount in *. simpl.
+      rewrite (Nat.eqb_sym a c). destruct (c =? a); simpl; lia.
+Qed.
+
+(* ------------------------------------------------------------------ one dispatch *)
+
+Lemma gi_same : forall n s s1 rem, PI n s rem -> BI n s rem ->
+  q s1 = q s -> pend s1 = pend s -> disp s1 = disp s -> regd s1 = regd s -> unregd s1 = unregd s ->
+  fx s1 = fx s -> PI n s1 rem /\ BI n s1 rem.
+Proof.
+  intros n s s1 rem H B Q P D R U X. split.
+  - intro c. specialize (H c). unfold occ in *. rewrite Q, P, X. exact H.
+  - intros e A. specialize (B e A). unfold tot, gh in *. rewrite Q, D, R, U. exact B.
+Qed.
+
+Lemma lookup_fx : forall n r e s, fx (fst (lookup n r e s)) = fx s.
+Proof.
+  intros n r e s. unfold lookup. destruct (dirty s r); destruct (find_key _ _); reflexivity.
+Qed.
+
+Definition disp1 (r : comp) (e : ev) (s s' : st) : Prop :=
+  exists d, disp s' = d :: disp s /\ d_root d = r /\ d_ev d = e.
+
+Lemma dispatch_post : forall n r e0 hs tg t s, GI n s (e0 :: t) -> par s r = r ->
+  post (fun s' => GI n s' t /\ par s' r = r /\ disp1 r e0 s s') (dispatch n r ((e0, hs), tg) s).
+Proof.
+  intros n r e0 hs tg t s [I [H B]] Hr. unfold dispatch.
+  pose proof (lookup_fx n r e0 s) as Lx.
+  destruct (lookup n r e0 s) as [s1 ms] eqn:Hl. simpl in Lx.
+  destruct (lookup_inv _ _ _ _ _ _ I Hr Hl) as [I1 [Hms T]].
+  destruct T as [T1 [T2 [T3 [T4 [T5 [T6 [T7 T8]]]]]]].
+  destruct (gi_same n s s1 (e0 :: t) H B T5 T4 T8 T6 T7 Lx) as [H1 B1].
+  assert (Hr1 : par s1 r = r) by (rewrite T1; exact Hr).
+  destruct (hs_ok e0 ms hs); [|exact Logic.I]. cbv zeta.
+  set (c0 := match tg return ctx with [] => None | _ => Some (r, tg) end).
+  pose proof (handlers_post c0 n r hs ms true s1 (e0 :: t) (conj I1 (conj H1 B1)) Hr1 Hms) as P.
+  destruct (run_handlers c0 n r ms hs true s1) as [[s1' ok]| | | |]; try exact P.
+  simpl in P. destruct P as [[I1' [H1' B1']] [[K1 [K2 K3]] Eok]]. subst ok.
+  set (d := mkd r e0 ms true).
+  set (s2 := set_disp s1' (d :: disp s1')).
+  assert (I2 : Inv n s2).
+  { unfold s2, Inv; proj. apply invF_disp; [exact I1' | reflexivity]. }
+  assert (Hr2 : par s2 r = r) by exact K1.
+  assert (D2 : disp1 r e0 s s2).
+  { exists d. unfold s2; proj. rewrite K3, T8. repeat split. }
+  (* the event leaves the batch and enters the dispatch log *)
+  assert (B2 : BI n s2 t).
+  { intros e A. specialize (B1' e A). unfold tot, gh, s2 in *. proj. rewrite cnt_cons in B1'.
+    unfold dcount in *. unfold d. simpl. destruct (ev_eqb e e0); simpl; lia. }
+  assert (H2 : PI n s2 (e0 :: t)) by exact H1'.
+  clearbody s2.
+  (* the last step: closures *)
+  assert (Fin : forall s3, Inv n s3 -> PIx n s3 t e0 -> BI n s3 t -> par s3 r = r -> disp1 r e0 s s3 ->
+                GI n (finish r e0 tg s3) t /\ par (finish r e0 tg s3) r = r /\ disp1 r e0 s (finish r e0 tg s3)).
+  { intros s3 I3 P3 B3 Hr3 [d3 [E1 E2]].
+    destruct (finish_gi n r e0 tg s3 t I3 P3 B3) as [G4 [F1 [F2 F3]]].
+    split; [exact G4|]. split; [rewrite F1; exact Hr3|]. exists d3. rewrite F3. split; assumption. }
+  assert (Plain : post (fun s' => GI n s' t /\ par s' r = r /\ disp1 r e0 s s') (Ok (finish r e0 tg s2))).
+  { simpl. apply Fin; [exact I2 | apply pix_of_pi; exact H2 | exact B2 | exact Hr2 | exact D2]. }
+  destruct e0 as [i|a b|a b|a|a|]; try exact Plain.
+  destruct (existsb (Nat.eqb a) ms); [|exact Plain].
+  (* prepare_unregister_complete(a), a still listed: a detaches *)
+  assert (Hp : pend s2 a = true).
+  { specialize (H2 a). unfold occ in H2. rewrite !cnt_cons in H2. simpl in H2. rewrite Nat.eqb_refl in H2.
+    destruct (pend s2 a); [reflexivity | lia]. }
+  destruct (complete_progress n a s2 I2 Hp) as [s0 Hs0]. unfold completeX. rewrite Hs0.
+  cbn [with_fx]. cbv beta iota delta [post].
+  destruct (complete_inv _ _ _ _ I2 Hs0) as [I0 Hroots].
+  pose proof (complete_disp _ _ _ _ Hs0) as Dd.
+  destruct (complete_ok _ _ _ _ Hs0) as [_ Hrest].
+  destruct (Hrest (i_pend _ _ _ _ _ _ _ _ I2 a Hp)) as [f [_ E]].
+  assert (Hcn : rt s2 a < n).
+  { apply (i_rtlt _ _ _ _ _ _ _ _ I2). apply (i_kidlt _ _ _ _ _ _ _ _ I2 (par s2 a)).
+    apply (i_kid _ _ _ _ _ _ _ _ I2). split; [reflexivity|]. intro X.
+    apply (i_pend _ _ _ _ _ _ _ _ I2 a Hp). symmetry. exact X. }
+  apply Fin.
+  - exact I0.
+  - (* a's completion event is consumed, a is no longer pending *)
+    intro c. specialize (H2 c). unfold occ in *. subst s0. proj. rewrite !cnt_cons in H2.
+    rewrite !qcount_enq_other by reflexivity. simpl in H2 |- *.
+    destruct (Nat.eq_dec c a) as [->|N].
+    + rewrite upd_same. rewrite Nat.eqb_refl in H2. destruct (pend s2 a); lia.
+    + rewrite upd_other by exact N. rewrite (proj2 (Nat.eqb_neq _ _) N) in H2. lia.
+  - intros e A. specialize (B2 e A). unfold tot, gh in *. subst s0. proj.
+    destruct (ev_eqb e (Unregistered a (par s2 a))) eqn:Ee.
+    + apply ev_eqb_eq in Ee. subst e. rewrite qcount_enq_same by exact Hcn.
+      simpl in B2 |- *. unfold cntp in *. simpl. rewrite !Nat.eqb_refl. simpl. lia.
+    + rewrite qcount_enq_other by exact Ee.
+      destruct e as [|x y|x y| | |]; simpl in A; try discriminate; simpl in B2 |- *; [exact B2|].
+      unfold cntp in *. simpl. simpl in Ee. rewrite Ee. exact B2.
+  - proj. apply Hroots. exact Hr2.
+  - destruct D2 as [d' [E1 E2]]. exists d'. proj. rewrite Dd. split; assumption.
+Qed.
+
+(* ------------------------------------------------------------------ flushes, ticks, histories *)
+
+Definition evs_of (l : list (item * list nat)) : list ev := map (fun x => fst (fst x)) l.
+
+Lemma attach_evs : forall sched bev btg, evs_of (attach sched bev btg) = map fst sched.
+Proof.
+  induction sched as [|it t IH]; intros bev btg; [reflexivity|].
+  cbn [attach]. destruct (take_tags (fst it) bev btg) as [g [bev' btg']].
+  unfold evs_of in *. simpl. rewrite IH. reflexivity.
+Qed.
+
+Definition dispN (r : comp) (evs : list ev) (s s' : st) : Prop :=
+  exists ds, disp s' = ds ++ disp s /\ map d_ev (rev ds) = evs /\ (forall d, In d ds -> d_root d = r).
+
+Lemma dispatch_all_post : forall n r sched s, GI n s (evs_of sched) -> par s r = r ->
+  post (fun s' => GI n s' [] /\ par s' r = r /\ dispN r (evs_of sched) s s') (dispatch_all n r sched s).
+Proof.
+  intros n r. induction sched as [|[[e0 hs] tg] t IH]; intros s G Hr;
+    unfold evs_of in *; cbn [dispatch_all map fst] in G |- *.
+  - cbv beta iota delta [post]. split; [exact G | split; [exact Hr|]]. exists [].
+    split; [reflexivity | split; [reflexivity | intros d []]].
+  - pose proof (dispatch_post n r e0 hs tg _ s G Hr) as P. unfold item in *.
+    destruct (dispatch n r (e0, hs, tg) s) as [s1| | | |]; try exact P. simpl in P.
+    destruct P as [G1 [Hr1 [d [E1 [E2 E3]]]]].
+    pose proof (IH s1 G1 Hr1) as P2.
+    destruct (dispatch_all n r t s1) as [s2| | | |]; try exact P2. cbv beta iota delta [post] in P2 |- *.
+    destruct P2 as [G2 [Hr2 [ds [F1 [F2 F3]]]]].
+    split; [exact G2 | split; [exact Hr2|]].
+    exists (ds ++ [d]). split; [|split].
+    + rewrite F1, E1, <- app_assoc. reflexivity.
+    + rewrite rev_app_distr. simpl. rewrite E3, F2. reflexivity.
+    + intros d' Hin. apply in_app_or in Hin. destruct Hin as [Hin|[<-|[]]]; [apply F3; exact Hin | exact E2].
+Qed.
+
+(* the state in which a flush starts dispatching: the batch has left the queue *)
+Definition flush_start (r : comp) (s : st) : st :=
+  set_fx (set_q s (upd (q s) r []))
+         (mkfx (upd (qt (fx s)) r []) (nxt (fx s)) (out (fx s)) (wl (fx s))).
+
+Lemma flush_start_gi : forall n r s evs, GI n s [] -> r < n -> Permutation evs (q s r) -> GI n (flush_start r s) evs.
+Proof.
+  intros n r s evs [I [H B]] Hrn P. split; [exact I|]. split.
+  - intro c. specialize (H c). unfold occ, flush_start in *. proj. rewrite !cnt_nil in H.
+    rewrite (cnt_perm _ _ _ P), (cnt_perm (PrepDone c) _ _ P).
+    pose proof (qcount_upd n (PrepUnreg c) (q s) r [] Hrn) as E1.
+    pose proof (qcount_upd n (PrepDone c) (q s) r [] Hrn) as E2.
+    rewrite cnt_nil in E1, E2. simpl. lia.
+  - intros e A. specialize (B e A). unfold tot, gh, flush_start in *. proj. rewrite cnt_nil in B.
+    rewrite (cnt_perm _ _ _ P). pose proof (qcount_upd n e (q s) r [] Hrn) as E1. rewrite cnt_nil in E1. lia.
+Qed.
+
+Lemma flush_post : forall n r sched s, GI n s [] -> par s r = r -> r < n ->
+  post (fun s' => GI n s' [] /\ dispN r (map fst sched) s s' /\ Permutation (map fst sched) (q s r))
+       (flush n r sched s).
+Proof.
+  intros n r sched s G Hr Hrn. unfold flush.
+  destruct (is_perm (map fst sched) (q s r)) eqn:P; [|exact Logic.I].
+  apply is_perm_perm in P. cbv zeta. fold (flush_start r s).
+  pose proof (flush_start_gi n r s (map fst sched) G Hrn P) as G0.
+  rewrite <- (attach_evs sched (q s r) (qt (fx s) r)) in G0.
+  pose proof (dispatch_all_post n r _ (flush_start r s) G0 Hr) as Q.
+  destruct (dispatch_all n r (attach sched (q s r) (qt (fx s) r)) (flush_start r s)) as [s'| | | |]; try exact Q.
+  cbv beta iota delta [post] in Q |- *.
+  destruct Q as [G' [_ D]]. rewrite attach_evs in D. split; [exact G' | split; [exact D | exact P]].
+Qed.
+
+Lemma ticks_post : forall n r scheds s, GI n s [] -> r < n -> post (fun s' => GI n s' []) (ticks n r scheds s).
+Proof.
+  intros n r. induction scheds as [|sc t IH]; intros s G Hr; simpl; [exact G|].
+  unfold tick1. destruct (q s r) eqn:Q.
+  - destruct sc; [apply IH; assumption | exact Logic.I].
+  - pose proof (flush_post n (rt s r) sc s G (i_rtroot _ _ _ _ _ _ _ _ (proj1 G) r)
+                  (i_rtlt _ _ _ _ _ _ _ _ (proj1 G) r Hr)) as P.
+    destruct (flush n (rt s r) sc s) as [s1| | | |]; try exact P. simpl in P. apply IH; [exact (proj1 P) | exact Hr].
+Qed.
+
+Lemma registerX_post : forall c0 n c p s rem, GI n s rem -> post (fun s' => GI n s' rem) (registerX c0 n c p s).
+Proof.
+  intros c0 n c p s rem G. pose proof (register_safe n c p s (proj1 G)) as S. unfold registerX.
+  destruct (register n c p s) as [s'| | | |] eqn:R; try exact S.
+  simpl. destruct (register_fields _ _ _ _ _ R) as [_ [_ [_ [_ Fx]]]].
+  apply gi_set_fx; [eapply register_gi; eassumption|]. rewrite Fx. reflexivity.
+Qed.
+
+Lemma unregisterX_post : forall c0 n c s rem, GI n s rem -> post (fun s' => GI n s' rem) (unregisterX c0 n c s).
+Proof.
+  intros c0 n c s rem G. unfold unregisterX.
+  destruct (unregister n c s) as [s'| | | |] eqn:U; simpl; try exact Logic.I.
+  - destruct (unregister_gi _ _ _ _ _ G U) as [G' [_ [_ [_ E4]]]].
+    apply gi_set_fx; [exact G'|]. rewrite E4. destruct (pend s c); reflexivity.
+  - unfold unregister in U. destruct ((c <? n) && negb (par s c =? c)); [destruct (pend s c)|]; discriminate.
+  - unfold unregister in U. destruct ((c <? n) && negb (par s c =? c)); [destruct (pend s c)|]; discriminate.
+Qed.
+
+Lemma fireX_post : forall c0 n x i s rem, GI n s rem -> post (fun s' => GI n s' rem) (fireX c0 n x i s).
+Proof.
+  intros c0 n x i s rem G. unfold fireX.
+  destruct (fire n x i s) as [s'| | | |] eqn:F; simpl; try exact Logic.I.
+  - destruct (fire_gi _ _ _ _ _ _ G F) as [G' [_ [_ [_ E4]]]].
+    apply gi_set_fx; [exact G'|]. rewrite E4. reflexivity.
+  - unfold fire in F. destruct (x <? n); discriminate.
+  - unfold fire in F. destruct (x <? n); discriminate.
+Qed.
+
+Lemma step_post : forall n o s, GI n s [] -> post (fun s' => GI n s' []) (step n o s).
+Proof.
+  intros n o s G. destruct o as [c p|c|x i|r scheds|x sched]; cbn [step].
+  - apply registerX_post; exact G.
+  - apply unregisterX_post; exact G.
+  - apply fireX_post; exact G.
+  - destruct ((r <? n) && (par s r =? r)) eqn:C; [|exact Logic.I].
+    apply andb_prop in C. destruct C as [C1 _]. apply Nat.ltb_lt in C1. apply ticks_post; assumption.
+  - destruct (x <? n) eqn:C; [|exact Logic.I]. apply Nat.ltb_lt in C.
+    pose proof (flush_post n (rt s x) sched s G (i_rtroot _ _ _ _ _ _ _ _ (proj1 G) x)
+                  (i_rtlt _ _ _ _ _ _ _ _ (proj1 G) x C)) as P.
+    destruct (flush n (rt s x) sched s) as [s1| | | |]; try exact P. exact (proj1 P).
+Qed.
+
+Lemma run_post : forall n h s, GI n s [] -> post (fun s' => GI n s' []) (run n h s).
+Proof.
+  intros n. induction h as [|o t IH]; intros s G; simpl; [exact G|].
+  pose proof (step_post n o s G) as P.
+  destruct (step n o s) as [s1| | | |]; try exact P. apply IH. exact P.
+Qed.
+
+Lemma gi_init : forall n, GI n init [].
+Proof.
+  intro n. split; [apply inv_init|]. split.
+  - intro c. unfold occ. change (q init) with (fun _ : comp => @nil ev).
+    rewrite !qcount_empty, !cnt_nil. change (wl (fx init)) with (@nil (nat * comp)). unfold wcount. simpl. lia.
+  - intros e A. unfold tot, gh. change (q init) with (fun _ : comp => @nil ev).
+    rewrite qcount_empty, cnt_nil. destruct e; reflexivity.
+Qed.
+
+Lemma run_gi : forall n h s, run n h init = Ok s -> GI n s [].
+Proof. intros n h s R. pose proof (run_post n h init (gi_init n)) as P. rewrite R in P. exact P. Qed.
+
+(* for EVERY history, every schedule and whatever the handlers do: the outcome is Ok, PreViolated or
+   BadSched - never a crash, never out of fuel *)
+Lemma run_safe : forall n h, run n h init <> Crash /\ run n h init <> OutOfFuel.
+Proof.
+  intros n h. pose proof (run_post n h init (gi_init n)) as P.
+  split; intro E; rewrite E in P; exact P.
+Qed.
+(* ------------------------------------------------------------------ the theorems, on final states *)
+
+Lemma run_inv0 : forall n h s, run n h init = Ok s -> Inv n s.
+Proof. intros n h s R. exact (proj1 (run_gi _ _ _ R)). Qed.
+
+Lemma run_forest : forall n h s, run n h init = Ok s -> forest s.
+Proof. intros n h s H. eapply inv_forest. eapply run_inv0; exact H. Qed.
+
+Lemma run_subtree_reading : forall n h s c p, run n h init = Ok s -> par s c = c ->
+  (rt s p = c <-> desc (kid s) c p).
+Proof. intros n h s c p H. eapply inv_subtree_reading. eapply run_inv0; exact H. Qed.
+
+Lemma run_pending_attached : forall n h s c, run n h init = Ok s -> pend s c = true -> par s c <> c.
+Proof. intros n h s c H. eapply inv_pending_attached. eapply run_inv0; exact H. Qed.
+
+Lemma run_deliveries : forall n h s d, run n h init = Ok s -> In d (disp s) -> d_ok d = true.
+Proof. intros n h s d H. apply (i_disp _ _ _ _ _ _ _ _ (run_inv0 _ _ _ H)). Qed.
+
+Lemma run_detach_connected : forall n h s c s', run n h init = Ok s -> complete n c s = Ok s' ->
+  par s' c = c /\ pend s' c = false /\ kid s' (par s c) c = false /\
+  (forall x, desc (kid s) c x ->
+     rt s' x = c /\ desc (kid s') c x /\ (x <> c -> par s' x = par s x /\ kid s' (par s x) x = kid s (par s x) x)) /\
+  (forall x, ~ desc (kid s) c x -> rt s' x = rt s x /\ par s' x = par s x).
+Proof. intros n h s c s' H. apply detach_connected. eapply run_inv0; exact H. Qed.
+
+Lemma run_move_connected : forall n h s c p s', run n h init = Ok s -> register n c p s = Ok s' ->
+  par s' c = p /\ kid s' p c = true /\
+  (forall x, desc (kid s) c x ->
+     rt s' x = rt s p /\ desc (kid s') c x /\ (x <> c -> par s' x = par s x /\ kid s' (par s x) x = kid s (par s x) x)) /\
+  (forall x, ~ desc (kid s) c x -> rt s' x = rt s x /\ par s' x = par s x).
+Proof. intros n h s c p s' H. apply move_connected. eapply run_inv0; exact H. Qed.
+
+Lemma run_register_queue : forall n h s c p s', run n h init = Ok s -> register n c p s = Ok s' ->
+  rt s' c = rt s p /\
+  q s' (rt s p) = q s (rt s p) ++ q s c ++ [Registered c p] /\
+  q s' c = [] /\
+  (forall x, x <> c -> x <> rt s p -> q s' x = q s x).
+Proof. intros n h s c p s' H. apply register_queue. eapply run_inv0; exact H. Qed.
+
+(* registered(c,p) events queued or dispatched = completed registrations (c,p) (the ghost list regd is
+   extended by register and by nothing else: register_fields); likewise unregistered / unregd *)
+Lemma run_announce_registered : forall n h s c p, run n h init = Ok s ->
+  qcount n (q s) (Registered c p) + dcount (disp s) (Registered c p) = cntp c p (regd s).
+Proof.
+  intros n h s c p R. destruct (run_gi _ _ _ R) as [_ [_ B]].
+  specialize (B (Registered c p) eq_refl). unfold tot, gh in B. rewrite cnt_nil in B. lia.
+Qed.
+
+Lemma run_announce_unregistered : forall n h s c p, run n h init = Ok s ->
+  qcount n (q s) (Unregistered c p) + dcount (disp s) (Unregistered c p) = cntp c p (unregd s).
+Proof.
+  intros n h s c p R. destruct (run_gi _ _ _ R) as [_ [_ B]].
+  specialize (B (Unregistered c p) eq_refl). unfold tot, gh in B. rewrite cnt_nil in B. lia.
+Qed.
+
+Lemma flush_dispatches_batch : forall n h s r sched s', run n h init = Ok s -> par s r = r -> r < n ->
+  flush n r sched s = Ok s' ->
+  Permutation (map fst sched) (q s r) /\
+  exists ds, disp s' = ds ++ disp s /\ map d_ev (rev ds) = map fst sched /\ (forall d, In d ds -> d_root d = r).
+Proof.
+  intros n h s r sched s' R Hr Hrn F.
+  pose proof (flush_post n r sched s (run_gi _ _ _ R) Hr Hrn) as P. rewrite F in P. simpl in P.
+  destruct P as [_ [D Pm]]. split; [exact Pm | exact D].
+Qed.
+
+(* ================================================================== histories that satisfy the preconditions *)
+
+(* ================================================================== histories that satisfy the preconditions *)
 
 (* the preconditions of the property's quantifier, read on the state the op is applied to *)
 Definition op_pre (n : nat) (o : op) (s : st) : Prop :=
@@ -1434,13 +1575,54 @@ Definition op_pre (n : nat) (o : op) (s : st) : Prop :=
   | OFlush x _ => x < n
   end.
 
-(* every flush dispatches its batch in some order: the schedule is a permutation of what is queued *)
-Fixpoint ticks_sched (n : nat) (r : comp) (scheds : list (list ev)) (s : st) : Prop :=
+(* the same preconditions for what a handler does, at the moment it does it; r = the root that is flushing *)
+Definition act_pre (n : nat) (r : comp) (a : act) (s : st) : Prop :=
+  match a with
+  | AReg c p => c <> r /\ op_pre n (OReg c p) s
+  | AUnreg c => op_pre n (OUnreg c) s
+  | AFire x i => op_pre n (OFire x i) s
+  end.
+
+Fixpoint acts_pre (c0 : ctx) (n : nat) (r : comp) (l : list act) (s : st) : Prop :=
+  match l with
+  | [] => True
+  | a :: t => act_pre n r a s /\ forall s', run_act c0 n r a s = Ok s' -> acts_pre c0 n r t s'
+  end.
+
+Fixpoint handlers_pre (c0 : ctx) (n : nat) (r : comp) (ms : list comp) (hs : list (comp * list act)) (s : st)
+  : Prop :=
+  match ms with
+  | [] => True
+  | x :: t => acts_pre c0 n r (acts_of x hs) s /\
+              forall s', run_acts c0 n r (acts_of x hs) s = Ok s' -> handlers_pre c0 n r t hs s'
+  end.
+
+Definition ctx_of (r : comp) (tg : list nat) : ctx := match tg with [] => None | _ => Some (r, tg) end.
+
+(* only receivers act, only on probe / registered / unregistered / prepare_unregister events, and what they
+   do is allowed *)
+Definition item_pre (n : nat) (r : comp) (it : item * list nat) (s : st) : Prop :=
+  let e := fst (fst it) in let hs := snd (fst it) in
+  hs_ok e (snd (lookup n r e s)) hs = true /\
+  handlers_pre (ctx_of r (snd it)) n r (snd (lookup n r e s)) hs (fst (lookup n r e s)).
+
+Fixpoint items_pre (n : nat) (r : comp) (sched : list (item * list nat)) (s : st) : Prop :=
+  match sched with
+  | [] => True
+  | it :: t => item_pre n r it s /\ forall s', dispatch n r it s = Ok s' -> items_pre n r t s'
+  end.
+
+(* a flush dispatches its batch in some order *)
+Definition flush_pre (n : nat) (r : comp) (sched : list item) (s : st) : Prop :=
+  Permutation (map fst sched) (q s r) /\
+  items_pre n r (attach sched (q s r) (qt (fx s) r)) (flush_start r s).
+
+Fixpoint ticks_sched (n : nat) (r : comp) (scheds : list (list item)) (s : st) : Prop :=
   match scheds with
   | [] => True
   | sc :: t => match q s r with
                | [] => sc = [] /\ ticks_sched n r t s
-               | _ => Permutation sc (q s (rt s r)) /\
+               | _ => flush_pre n (rt s r) sc s /\
                       forall s', flush n (rt s r) sc s = Ok s' -> ticks_sched n r t s'
                end
   end.
@@ -1448,7 +1630,7 @@ Fixpoint ticks_sched (n : nat) (r : comp) (scheds : list (list ev)) (s : st) : P
 Definition op_sched (n : nat) (o : op) (s : st) : Prop :=
   match o with
   | OTick r scheds => ticks_sched n r scheds s
-  | OFlush x sched => Permutation sched (q s (rt s x))
+  | OFlush x sched => flush_pre n (rt s x) sched s
   | _ => True
   end.
 
@@ -1458,159 +1640,153 @@ Fixpoint valid (n : nat) (h : list op) (s : st) : Prop :=
   | o :: t => op_pre n o s /\ op_sched n o s /\ forall s', step n o s = Ok s' -> valid n t s'
   end.
 
-Lemma ticks_progress : forall n r scheds s, Inv n s -> r < n -> PI n s [] -> ticks_sched n r scheds s ->
-  exists s', ticks n r scheds s = Ok s' /\ Inv n s' /\ PI n s' [].
+(* not one of the two verdicts on the hypotheses *)
+Definition good {A : Type} (r : res A) : Prop :=
+  match r with PreViolated | BadSched => False | _ => True end.
+
+Lemma post_good_ok : forall A (P : A -> Prop) (r : res A), post P r -> good r -> exists a, r = Ok a /\ P a.
+Proof. intros A P r Hp Hg. destruct r; try contradiction. exists a. split; [reflexivity | exact Hp]. Qed.
+
+Lemma good_with_fx : forall r x, good r -> good (with_fx r x).
+Proof. intros r x H. destruct r; exact H. Qed.
+
+Lemma register_good : forall n c p s, Inv n s -> op_pre n (OReg c p) s -> good (register n c p s).
 Proof.
-  intros n r. induction scheds as [|sc t IH]; intros s I Hr H V.
-  - exists s. split; [reflexivity | split; assumption].
-  - simpl in V |- *. unfold tick1. destruct (q s r) eqn:Q.
-    + destruct V as [-> V]. apply IH; assumption.
-    + destruct V as [P V].
-      destruct (flush_progress n (rt s r) sc s I (i_rtroot _ _ _ _ _ _ _ _ I r)
-                  (i_rtlt _ _ _ _ _ _ _ _ I r Hr) H P) as [s1 [F [I1 H1]]].
-      rewrite F. apply IH; [exact I1 | exact Hr | exact H1 | apply V; exact F].
+  intros n c p s I [Hc [Hp [Hdet [Hnp Hout]]]]. unfold register.
+  assert (Hrp : rt s p <> c).
+  { intro E. apply Hout. apply (inv_subtree_reading _ _ _ _ I Hdet). exact E. }
+  assert (Hcp : c <> p) by (intro E; subst; apply Hout; apply desc_refl).
+  rewrite (proj2 (Nat.ltb_lt _ _) Hc), (proj2 (Nat.ltb_lt _ _) Hp), (proj2 (Nat.eqb_eq _ _) Hdet), Hnp,
+          (proj2 (Nat.eqb_neq _ _) Hrp), (proj2 (Nat.eqb_neq _ _) Hcp). cbn [andb negb].
+  destruct (upd_root _ _ _ _ _ _); exact Logic.I.
 Qed.
 
-Lemma step_progress : forall n o s, Inv n s -> PI n s [] -> op_pre n o s -> op_sched n o s ->
-  exists s', step n o s = Ok s' /\ Inv n s' /\ PI n s' [].
+Lemma unregister_good : forall n c s, op_pre n (OUnreg c) s -> good (unregister n c s).
 Proof.
-  intros n o s I H Pre Sch. destruct o as [c p|c|x i|r scheds|x sched]; simpl in Pre, Sch |- *.
-  - destruct Pre as [Hc [Hp [Hdet [Hnp Hout]]]].
-    destruct (register_progress n c p s I Hc Hp Hdet Hnp Hout) as [s' R]. exists s'. split; [exact R|].
-    split; [eapply register_inv; eassumption|].
-    intro c'. specialize (H c'). unfold occ in *.
-    pose proof (register_queue _ _ _ _ _ I R) as [Hrc _].
-    destruct (register_ok _ _ _ _ _ R) as [_ [_ [_ [_ [Hrp [_ [f [_ E]]]]]]]].
-    assert (HR : rt s p < n) by (apply (i_rtlt _ _ _ _ _ _ _ _ I); exact Hp).
-    rewrite E in Hrc |- *. proj_in Hrc. proj. rewrite Hrc.
-    rewrite !qcount_enq_other by reflexivity.
-    assert (X : forall e, qcount n (upd (upd (q s) (rt s p) (q s (rt s p) ++ q s c)) c []) e = qcount n (q s) e).
-    { intro e.
-      pose proof (qcount_upd n e (q s) (rt s p) (q s (rt s p) ++ q s c) HR) as X1. rewrite cnt_app in X1.
-      pose proof (qcount_upd n e (upd (q s) (rt s p) (q s (rt s p) ++ q s c)) c [] Hc) as X2.
-      rewrite upd_other in X2 by (intro Y; apply Hrp; symmetry; exact Y). rewrite cnt_nil in X2. lia. }
-    rewrite !X. exact H.
-  - destruct Pre as [Hc Hatt]. unfold unregister.
-    rewrite (proj2 (Nat.ltb_lt _ _) Hc), (proj2 (Nat.eqb_neq _ _) Hatt). cbn [andb negb].
-    destruct (pend s c) eqn:Hp.
-    + exists s. split; [reflexivity | split; assumption].
-    + eexists. split; [reflexivity|]. split.
-      * eapply unregister_inv; [exact I|]. unfold unregister.
-        rewrite (proj2 (Nat.ltb_lt _ _) Hc), (proj2 (Nat.eqb_neq _ _) Hatt), Hp. reflexivity.
-      * intro c'. pose proof (H c') as H'. unfold occ in *. proj.
-        pose proof (qcount_enq_le n (PrepUnreg c') (q s) (rt s c) (PrepUnreg c)) as L1.
-        rewrite (qcount_enq_other n (PrepDone c')) by reflexivity.
-        simpl in L1. destruct (Nat.eq_dec c' c) as [->|N].
-        -- rewrite upd_same. rewrite Hp in H'. rewrite Nat.eqb_refl in L1. lia.
-        -- rewrite upd_other by exact N. rewrite (proj2 (Nat.eqb_neq _ _) N) in L1. lia.
-  - rewrite (proj2 (Nat.ltb_lt _ _) Pre). eexists. split; [reflexivity|]. split; [exact I|].
-    intro c. specialize (H c). unfold occ in *. proj. rewrite !qcount_enq_other by reflexivity. exact H.
-  - destruct Pre as [Hr Hroot].
-    rewrite (proj2 (Nat.ltb_lt _ _) Hr), (proj2 (Nat.eqb_eq _ _) Hroot). cbn [andb].
-    apply ticks_progress; assumption.
-  - rewrite (proj2 (Nat.ltb_lt _ _) Pre).
-    apply flush_progress; try assumption.
-    + apply (i_rtroot _ _ _ _ _ _ _ _ I).
-    + apply (i_rtlt _ _ _ _ _ _ _ _ I). exact Pre.
+  intros n c s [Hc Hatt]. unfold unregister.
+  rewrite (proj2 (Nat.ltb_lt _ _) Hc), (proj2 (Nat.eqb_neq _ _) Hatt). cbn [andb negb].
+  destruct (pend s c); exact Logic.I.
 Qed.
 
-Lemma run_progress : forall n h s, Inv n s -> PI n s [] -> valid n h s ->
-  exists s', run n h s = Ok s' /\ Inv n s' /\ PI n s' [].
+Lemma fire_good : forall n x i s, op_pre n (OFire x i) s -> good (fire n x i s).
+Proof. intros n x i s H. unfold fire. simpl in H. rewrite (proj2 (Nat.ltb_lt _ _) H). exact Logic.I. Qed.
+
+Lemma complete_good : forall n c s, good (complete n c s).
 Proof.
-  intros n. induction h as [|o t IH]; intros s I H V.
-  - exists s. split; [reflexivity | split; assumption].
+  intros n c s. unfold complete. destruct (negb (pend s c)); [exact Logic.I|]. proj.
+  destruct (par s c =? c).
+  - destruct (upd_root _ _ _ _ _ _); exact Logic.I.
+  - destruct (negb (kid s (par s c) c)); [exact Logic.I|]. proj. destruct (upd_root _ _ _ _ _ _); exact Logic.I.
+Qed.
+
+Lemma act_good : forall c0 n r a s, Inv n s -> act_pre n r a s -> good (run_act c0 n r a s).
+Proof.
+  intros c0 n r a s I H. destruct a as [c p|c|x i]; simpl in H |- *.
+  - destruct H as [N H]. rewrite (proj2 (Nat.eqb_neq _ _) N). apply good_with_fx. apply register_good; assumption.
+  - apply good_with_fx. apply unregister_good; exact H.
+  - apply good_with_fx. apply fire_good; exact H.
+Qed.
+
+Lemma acts_good : forall c0 n r l s rem, GI n s rem -> par s r = r -> acts_pre c0 n r l s ->
+  good (run_acts c0 n r l s).
+Proof.
+  intros c0 n r. induction l as [|a t IH]; intros s rem G Hr H; simpl; [exact Logic.I|].
+  destruct H as [Ha Ht]. pose proof (act_good c0 n r a s (proj1 G) Ha) as Ga.
+  pose proof (act_post c0 n r a s rem G Hr) as Pa.
+  destruct (run_act c0 n r a s) as [s1| | | |]; try contradiction; try exact Logic.I.
+  simpl in Pa. destruct Pa as [G1 K1]. eapply IH; [exact G1 | exact (proj1 K1) | apply Ht; reflexivity].
+Qed.
+
+Lemma handlers_good : forall c0 n r hs ms ok s rem, GI n s rem -> par s r = r -> handlers_pre c0 n r ms hs s ->
+  good (run_handlers c0 n r ms hs ok s).
+Proof.
+  intros c0 n r hs. induction ms as [|x t IH]; intros ok s rem G Hr H; simpl; [exact Logic.I|].
+  destruct H as [Ha Ht]. pose proof (acts_good c0 n r (acts_of x hs) s rem G Hr Ha) as Ga.
+  pose proof (acts_post c0 n r (acts_of x hs) s rem G Hr) as Pa.
+  destruct (run_acts c0 n r (acts_of x hs) s) as [s1| | | |]; try contradiction; try exact Logic.I.
+  simpl in Pa. destruct Pa as [G1 K1]. eapply IH; [exact G1 | exact (proj1 K1) | apply Ht; reflexivity].
+Qed.
+
+Lemma dispatch_good : forall n r e0 hs tg t s, GI n s (e0 :: t) -> par s r = r ->
+  item_pre n r ((e0, hs), tg) s -> good (dispatch n r ((e0, hs), tg) s).
+Proof.
+  intros n r e0 hs tg t s [I [H B]] Hr [Hok Hh]. unfold dispatch. simpl in Hok, Hh.
+  pose proof (lookup_fx n r e0 s) as Lx.
+  destruct (lookup n r e0 s) as [s1 ms] eqn:Hl. simpl in Hok, Hh, Lx. rewrite Hok. cbv zeta.
+  destruct (lookup_inv _ _ _ _ _ _ I Hr Hl) as [I1 [Hms T]].
+  destruct T as [T1 [T2 [T3 [T4 [T5 [T6 [T7 T8]]]]]]].
+  destruct (gi_same n s s1 (e0 :: t) H B T5 T4 T8 T6 T7 Lx) as [H1 B1].
+  assert (Hr1 : par s1 r = r) by (rewrite T1; exact Hr).
+  fold (ctx_of r tg).
+  pose proof (handlers_good (ctx_of r tg) n r hs ms true s1 (e0 :: t) (conj I1 (conj H1 B1)) Hr1 Hh) as Gh.
+  destruct (run_handlers (ctx_of r tg) n r ms hs true s1) as [[s1' ok]| | | |]; try contradiction; try exact Logic.I.
+  destruct e0; try exact Logic.I.
+  destruct (existsb (Nat.eqb c) ms); [|exact Logic.I].
+  unfold completeX.
+  pose proof (complete_good n c (set_disp s1' (mkd r (PrepDone c) ms ok :: disp s1'))) as Gc.
+  destruct (complete n c (set_disp s1' (mkd r (PrepDone c) ms ok :: disp s1'))); simpl; try contradiction; exact Logic.I.
+Qed.
+
+Lemma dispatch_all_good : forall n r sched s, GI n s (evs_of sched) -> par s r = r -> items_pre n r sched s ->
+  good (dispatch_all n r sched s).
+Proof.
+  intros n r. induction sched as [|[[e0 hs] tg] t IH]; intros s G Hr H;
+    unfold evs_of in *; cbn [dispatch_all map fst] in G |- *; [exact Logic.I|].
+  destruct H as [Hi Ht]. pose proof (dispatch_good n r e0 hs tg _ s G Hr Hi) as Gd.
+  pose proof (dispatch_post n r e0 hs tg _ s G Hr) as Pd. unfold item in *.
+  destruct (dispatch n r (e0, hs, tg) s) as [s1| | | |]; try contradiction; try exact Logic.I.
+  cbv beta iota delta [post] in Pd. destruct Pd as [G1 [Hr1 _]].
+  apply IH; [exact G1 | exact Hr1 | apply Ht; reflexivity].
+Qed.
+
+Lemma flush_good : forall n r sched s, GI n s [] -> par s r = r -> r < n -> flush_pre n r sched s ->
+  good (flush n r sched s).
+Proof.
+  intros n r sched s G Hr Hrn [P Hi]. unfold flush. rewrite (perm_is_perm _ _ P). cbv zeta.
+  fold (flush_start r s). apply dispatch_all_good; [|exact Hr | exact Hi].
+  rewrite attach_evs. apply flush_start_gi; assumption.
+Qed.
+
+Lemma ticks_good : forall n r scheds s, GI n s [] -> r < n -> ticks_sched n r scheds s -> good (ticks n r scheds s).
+Proof.
+  intros n r. induction scheds as [|sc t IH]; intros s G Hr V; simpl in V |- *; [exact Logic.I|].
+  unfold tick1. destruct (q s r) eqn:Q.
+  - destruct V as [-> V]. apply IH; assumption.
+  - destruct V as [Pf V].
+    pose proof (flush_good n (rt s r) sc s G (i_rtroot _ _ _ _ _ _ _ _ (proj1 G) r)
+                  (i_rtlt _ _ _ _ _ _ _ _ (proj1 G) r Hr) Pf) as Gf.
+    pose proof (flush_post n (rt s r) sc s G (i_rtroot _ _ _ _ _ _ _ _ (proj1 G) r)
+                  (i_rtlt _ _ _ _ _ _ _ _ (proj1 G) r Hr)) as Pp.
+    destruct (flush n (rt s r) sc s) as [s1| | | |]; try contradiction; try exact Logic.I.
+    cbv beta iota delta [post] in Pp. apply IH; [exact (proj1 Pp) | exact Hr | apply V; reflexivity].
+Qed.
+
+Lemma step_good : forall n o s, GI n s [] -> op_pre n o s -> op_sched n o s -> good (step n o s).
+Proof.
+  intros n o s G Pre Sch. destruct o as [c p|c|x i|r scheds|x sched]; simpl in Sch; cbn [step].
+  - apply good_with_fx. apply register_good; [exact (proj1 G) | exact Pre].
+  - apply good_with_fx. apply unregister_good; exact Pre.
+  - apply good_with_fx. apply fire_good; exact Pre.
+  - destruct Pre as [Hr Hroot]. rewrite (proj2 (Nat.ltb_lt _ _) Hr), (proj2 (Nat.eqb_eq _ _) Hroot). cbn [andb].
+    apply ticks_good; assumption.
+  - simpl in Pre. rewrite (proj2 (Nat.ltb_lt _ _) Pre).
+    apply flush_good; [exact G | apply (i_rtroot _ _ _ _ _ _ _ _ (proj1 G)) |
+                       apply (i_rtlt _ _ _ _ _ _ _ _ (proj1 G)); exact Pre | exact Sch].
+Qed.
+Lemma run_valid_ok : forall n h s, GI n s [] -> valid n h s -> exists s', run n h s = Ok s' /\ GI n s' [].
+Proof.
+  intros n. induction h as [|o t IH]; intros s G V; simpl.
+  - exists s. split; [reflexivity | exact G].
   - destruct V as [Pre [Sch V]].
-    destruct (step_progress n o s I H Pre Sch) as [s1 [S [I1 H1]]].
-    simpl. rewrite S. apply IH; [exact I1 | exact H1 | apply V; exact S].
+    destruct (post_good_ok _ _ _ (step_post n o s G) (step_good n o s G Pre Sch)) as [s1 [S G1]].
+    rewrite S. apply IH; [exact G1 | apply V; exact S].
 Qed.
 
-Lemma qcount_empty : forall n e, qcount n (fun _ => []) e = 0.
-Proof.
-  intros n e. unfold qcount, qsum. induction (seq 0 n) as [|a l IH]; simpl; [reflexivity | exact IH].
-Qed.
-
-Lemma PI_init : forall n, PI n init [].
-Proof.
-  intros n c. unfold occ. change (q init) with (fun _ : comp => @nil ev).
-  rewrite !qcount_empty, !cnt_nil. simpl. lia.
-Qed.
-
-(* every history that satisfies the preconditions, under every schedule, runs to Ok:
-   no Crash (delattr / set.remove), no OutOfFuel (_updateRoot), no PreViolated, no BadSched *)
-Lemma run_ok_pi : forall n h, valid n h init -> exists s, run n h init = Ok s /\ Inv n s /\ PI n s [].
-Proof. intros n h V. apply run_progress; [apply inv_init | apply PI_init | exact V]. Qed.
-
+(* every history whose operations - those of the history and those performed by handlers - satisfy the
+   preconditions when they run, under every schedule, runs to Ok *)
 Lemma run_ok : forall n h, valid n h init -> exists s, run n h init = Ok s.
-Proof. intros n h V. destruct (run_ok_pi n h V) as [s [R _]]. exists s. exact R. Qed.
-
-(* whatever the history and the schedules are, the model never crashes and never runs out of fuel *)
-Definition safe (r : res st) : Prop :=
-  match r with Crash | OutOfFuel => False | _ => True end.
-
-Lemma flush_safe : forall n r sched s, Inv n s -> par s r = r -> r < n -> PI n s [] ->
-  (exists s', flush n r sched s = Ok s' /\ Inv n s' /\ PI n s' []) \/ flush n r sched s = BadSched.
 Proof.
-  intros n r sched s I Hr Hrn H. destruct (is_perm sched (q s r)) eqn:P.
-  - left. apply flush_progress; try assumption. apply is_perm_perm. exact P.
-  - right. unfold flush. rewrite P. reflexivity.
-Qed.
-
-Lemma ticks_safe : forall n r scheds s, Inv n s -> r < n -> PI n s [] ->
-  (exists s', ticks n r scheds s = Ok s' /\ Inv n s' /\ PI n s' []) \/ ticks n r scheds s = BadSched.
-Proof.
-  intros n r. induction scheds as [|sc t IH]; intros s I Hr H.
-  - left. exists s. split; [reflexivity | split; assumption].
-  - simpl. unfold tick1. destruct (q s r) eqn:Q.
-    + destruct sc; [apply IH; assumption | right; reflexivity].
-    + destruct (flush_safe n (rt s r) sc s I (i_rtroot _ _ _ _ _ _ _ _ I r)
-                  (i_rtlt _ _ _ _ _ _ _ _ I r Hr) H) as [[s1 [F [I1 H1]]] | F]; rewrite F.
-      * apply IH; assumption.
-      * right; reflexivity.
-Qed.
-
-Lemma step_safe : forall n o s, Inv n s -> PI n s [] ->
-  (exists s', step n o s = Ok s' /\ Inv n s' /\ PI n s' []) \/ step n o s = PreViolated \/ step n o s = BadSched.
-Proof.
-  intros n o s I H. destruct o as [c p|c|x i|r scheds|x sched].
-  - destruct ((c <? n) && (p <? n) && (par s c =? c) && negb (pend s c) && negb (rt s p =? c) && negb (c =? p)) eqn:C.
-    + left. apply step_progress; [exact I | exact H | | exact Logic.I].
-      repeat (apply andb_prop in C; destruct C as [C ?]).
-      apply Nat.ltb_lt in C. apply Nat.ltb_lt in H4. apply Nat.eqb_eq in H3.
-      apply negb_true_iff in H2. apply negb_true_iff in H1. apply Nat.eqb_neq in H1.
-      simpl. repeat (split; [assumption|]).
-      intro D. apply H1. apply (inv_subtree_reading _ _ _ _ I H3). exact D.
-    + right; left. simpl. unfold register. rewrite C. reflexivity.
-  - destruct ((c <? n) && negb (par s c =? c)) eqn:C.
-    + left. apply step_progress; [exact I | exact H | | exact Logic.I].
-      apply andb_prop in C. destruct C as [C1 C2]. apply Nat.ltb_lt in C1.
-      apply negb_true_iff in C2. apply Nat.eqb_neq in C2. simpl. split; assumption.
-    + right; left. simpl. unfold unregister. rewrite C. reflexivity.
-  - destruct (x <? n) eqn:C.
-    + left. apply step_progress; [exact I | exact H | | exact Logic.I]. simpl. apply Nat.ltb_lt. exact C.
-    + right; left. simpl. rewrite C. reflexivity.
-  - simpl. destruct ((r <? n) && (par s r =? r)) eqn:C.
-    + apply andb_prop in C. destruct C as [C1 C2]. apply Nat.ltb_lt in C1.
-      destruct (ticks_safe n r scheds s I C1 H) as [Ok1 | Bad]; [left; exact Ok1 | right; right; exact Bad].
-    + right; left. reflexivity.
-  - simpl. destruct (x <? n) eqn:C.
-    + apply Nat.ltb_lt in C.
-      destruct (flush_safe n (rt s x) sched s I (i_rtroot _ _ _ _ _ _ _ _ I x)
-                  (i_rtlt _ _ _ _ _ _ _ _ I x C) H) as [Ok1 | Bad]; [left; exact Ok1 | right; right; exact Bad].
-    + right; left. reflexivity.
-Qed.
-
-Lemma run_safe_from : forall n h s, Inv n s -> PI n s [] -> safe (run n h s).
-Proof.
-  intros n. induction h as [|o t IH]; intros s I H; simpl; [exact Logic.I|].
-  destruct (step_safe n o s I H) as [[s1 [S [I1 H1]]] | [S | S]]; rewrite S; [|exact Logic.I | exact Logic.I].
-  apply IH; assumption.
-Qed.
-
-(* for EVERY history and schedule: the outcome is Ok, PreViolated or BadSched *)
-Lemma run_safe : forall n h, run n h init <> Crash /\ run n h init <> OutOfFuel.
-Proof.
-  intros n h. pose proof (run_safe_from n h init (inv_init n) (PI_init n)) as S.
-  split; intro E; rewrite E in S; exact S.
+  intros n h V. destruct (run_valid_ok n h init (gi_init n) V) as [s [R _]]. exists s. exact R.
 Qed.
 
 (* ------------------------------------------------------------------ the theorems for all valid histories *)
@@ -1639,7 +1815,7 @@ Qed.
 
 Lemma valid_announce : forall n h, valid n h init ->
   exists s, run n h init = Ok s /\
-    forall c p, qcount n (q s) (Registered c p) + dcount (disp s) (Registered c p) = count_reg c p h /\
+    forall c p, qcount n (q s) (Registered c p) + dcount (disp s) (Registered c p) = cntp c p (regd s) /\
                 qcount n (q s) (Unregistered c p) + dcount (disp s) (Unregistered c p) = cntp c p (unregd s).
 Proof.
   intros n h V. destruct (run_ok n h V) as [s R]. exists s. split; [exact R|].
@@ -1688,12 +1864,44 @@ Qed.
 
 Lemma valid_flush : forall n h x sched, valid n (h ++ [OFlush x sched]) init ->
   exists s s', run n h init = Ok s /\ flush n (rt s x) sched s = Ok s' /\
-    Permutation sched (q s (rt s x)) /\
-    exists ds, disp s' = ds ++ disp s /\ map d_ev (rev ds) = sched /\ (forall d, In d ds -> d_root d = rt s x).
+    Permutation (map fst sched) (q s (rt s x)) /\
+    exists ds, disp s' = ds ++ disp s /\ map d_ev (rev ds) = map fst sched /\
+               (forall d, In d ds -> d_root d = rt s x).
 Proof.
   intros n h x sched V. destruct (valid_app _ _ _ _ V) as [Vh Pre].
-  destruct (run_ok_pi n h Vh) as [s [R [I H]]]. destruct (Pre s R) as [Hx P]. simpl in Hx, P.
-  destruct (flush_progress n (rt s x) sched s I (i_rtroot _ _ _ _ _ _ _ _ I x)
-              (i_rtlt _ _ _ _ _ _ _ _ I x Hx) H P) as [s' [F _]].
-  exists s, s'. split; [exact R|]. split; [exact F|]. eapply flush_dispatches_batch. exact F.
+  destruct (run_valid_ok n h init (gi_init n) Vh) as [s [R G]]. destruct (Pre s R) as [Hx P]. simpl in Hx, P.
+  pose proof (i_rtroot _ _ _ _ _ _ _ _ (proj1 G) x) as Hroot.
+  pose proof (i_rtlt _ _ _ _ _ _ _ _ (proj1 G) x Hx) as Hlt.
+  destruct (post_good_ok _ _ _ (flush_post n (rt s x) sched s G Hroot Hlt)
+              (flush_good n (rt s x) sched s G Hroot Hlt P)) as [s' [F [_ [D Pm]]]].
+  exists s, s'. split; [exact R|]. split; [exact F|]. split; [exact Pm | exact D].
+Qed.
+
+(* ------------------------------------------------------------------ the validity hypothesis is satisfiable *)
+
+
+(* ------------------------------------------------------------------ the validity hypothesis is satisfiable *)
+
+Lemma ex_valid :
+  valid 2 [OReg 1 0; OFlush 0 [(Registered 1 0, [(0, [AFire 1 5])])]] init.
+Proof.
+  cbn [valid]. split; [|split; [exact I|]].
+  - cbn [op_pre]. repeat split; try lia.
+    intro D. inversion D; subst. discriminate.
+  - intros s1 E. assert (E1 : s1 = match step 2 (OReg 1 0) init with Ok s => s | _ => init end) by (rewrite E; reflexivity).
+    clear E. split; [cbn [op_pre]; lia|]. split.
+    + cbn [op_sched]. split.
+      * subst s1. vm_compute. apply Permutation_refl.
+      * assert (A : attach [(Registered 1 0, [(0, [AFire 1 5])])] (q s1 (rt s1 0)) (qt (fx s1) (rt s1 0))
+                    = [((Registered 1 0, [(0, [AFire 1 5])]), [])]) by (subst s1; vm_compute; reflexivity).
+        rewrite A. cbn [items_pre]. split; [|intros; exact I].
+        unfold item_pre. cbn [fst snd]. split.
+        -- subst s1. vm_compute. reflexivity.
+        -- assert (M : snd (lookup 2 (rt s1 0) (Registered 1 0) (flush_start (rt s1 0) s1)) = [0;1])
+             by (subst s1; vm_compute; reflexivity).
+           rewrite M.
+           cbn [handlers_pre acts_of Nat.eqb acts_pre act_pre op_pre].
+           split; [split; [lia | intros; exact I]|].
+           intros s2 _. split; [exact I | intros; exact I].
+    + intros; exact I.
 Qed.
